@@ -1,5 +1,96 @@
-(* CopyProofs.v -- structural half of C17 (second sentence): Copy.copy_from_statechart.  WORK IN PROGRESS header,
-   replaced at the end. *)
+(* CopyProofs.v -- structural half of C17, second sentence:
+     "A sub-statechart plugged in with copy_from_statechart behaves inside its host exactly as the source
+      sub-statechart does, up to the renaming function."
+   Theorems about the model theories/Copy.v (copy_from_statechart, loop by loop as in sismic/model/statechart.py).
+   The behavioural half stays a lock-step test.  No Admitted, no axioms: every Print Assumptions at the end is closed.
+
+   NOTATION (after the section is closed)
+     D        = descendants_for guest source          (breadth-first order of the guest)
+     rh       = rho_apply rho                         (the renaming function, a finite table)
+     rs guest source replace rho x
+              = replace if x = source, rh x if x is in D, x otherwise       (the renaming actually applied: names
+                outside the copied subtree are left alone even if the table has an entry for them)
+     in_S guest source x  =  x = source \/ In x D
+     img r c c'   c' is the image of c under r as far as lookups in _states/_parent and the transitions go
+     host_ext h E h'   h' = h plus the entries E (state object, parent) appended to the three dictionaries
+
+   THEOREMS
+   1  copy_refused_unchanged      replace not a state of the host / replace has children / rename_state guest source
+                                  replace fails  =>  the result is (host, EStatechartError), the host unchanged.
+   5  copy_transitions_once       collect_transitions g names [] has no duplicate and contains exactly the indices
+                                  of the transitions whose source or target is in names (collect_transitions_spec:
+                                  the same with an arbitrary `seen`).
+   2  copy_states_decompose       a run of copy_states that ends in EOk = the renamings on the guest copy alone
+                                  (guest_entries: the list E of (state object, parent) read off after each
+                                  rename_state) followed by the add_state calls on the host alone (add_entries).
+      copy_states_spec            aligned h -> copy_states names rho g h added = (g', h', added', EOk) ->
+                                  added' = added ++ map rh names, and host_ext h E h': name/description/preamble/
+                                  transitions untouched, _states = old ++ [(name, object)], _parent = old ++
+                                  [(name, parent at that moment)], keys of _children = old ++ [Some name], every
+                                  children list = the old one (or [] for a new state) ++ the new states that were
+                                  given this parent, in the order of the loop.  `aligned` is the part of soundness that
+                                  holds of the intermediate hosts (keys of _parent/_children are states); `sound`
+                                  itself does NOT hold of them (a copied compound state arrives before its initial).
+      copy_states_ok              sufficient conditions: guest_entries succeeds and entries_ok (c_states h) E
+                                  (each name fresh at its turn, its parent a non-'' name of a state present at that
+                                  turn, of composite kind, and compound if the new state is a history state).
+                                  guest_loop / entries_ok_loop (section Main) discharge both from: images fresh for
+                                  the host, pairwise distinct, not '', each either equal to the old name or not a
+                                  state of the guest; parents before children (descendants_parents_before: BFS
+                                  gives it); parent kinds as above.
+   3  C17_copy_structure          for einv host, einv guest (einv = sound /\ no state called '' /\ fields_ok, as in
+                                  EditProofs), replace an existing childless state of the host, source a state of
+                                  the guest, replace = source or not a state of the guest, the conditions on rho
+                                  above, the kind conditions (Hkinds; `sound` says nothing about kinds), and every
+                                  guest transition with a target having its source in the subtree iff its target
+                                  is:  copy_from_statechart host guest source replace rho = (h', EOk) and
+                                  (a) keys of _states/_parent/_children of h' = those of host ++ map rh D (in order);
+                                      _parent is given as a list: host's ++ [(rh n, rs (parent of n))];
+                                  (b) for n in source :: D: state_for h' (rs n) = map_state rs (state n of guest)
+                                      (name, initial, memory mapped, everything else equal); parent of rs n =
+                                      rs (parent of n) for n in D; parent of replace as in the host;
+                                      children_for h' (rs n) = map rs (children_for guest n)  -- in the guest's order
+                                      (descendants_filter_children: BFS restricted to one node's children);
+                                  (c) every other state, every parent entry, every other children list of the host
+                                      unchanged (with (a): dict_ext/odict_ext of EditProofs make this a complete
+                                      description of the three dictionaries);
+                                  (d) c_transitions h' = c_transitions host ++ map (map_trans rs) L where L lists the
+                                      guest transitions with index in idxs, idxs duplicate-free and containing
+                                      exactly the indices of the guest transitions that touch the subtree, and
+                                      idxs = collect_transitions g2 (replace :: descendants_for g2 replace) [] for the
+                                      guest copy g2 at the end of the call (einv g2, img rs guest g2);
+                                  (e) name, description, preamble of the host unchanged.
+      C17_copy_transitions_order  see (d) under PARTIAL below: exact order when every descendant is renamed, or none.
+   4  C17_copy_sound              under the hypotheses of 3 and (K1) the source state has no memory, (K2) if the host
+                                  has a transition leaving replace then the source state's kind owns transitions:
+                                  the call returns (h', EOk) with einv h' (sound, no '' name, fields_ok).
+                                  The proof goes through the description (a)-(e), not through the intermediate hosts.
+      check_ccase_bit4            bit 4 of Copy.check_ccase is clear iff (sound host -> sound guest -> outcome EOk ->
+                                  sound post), for charts without a state called ''.
+      C17_copy_sound_b            the boolean form: sound_b (result) = true and outcome EOk under the hypotheses of 4.
+   Non-vacuity: ex_hyps / C17_copy_structure_instance (host of 3 states with two transitions at the replaced state;
+   guest subtree of 5 states with compound, basic and shallow-history states, 5 transitions inside -- one internal --
+   and one outside; a table with an entry for a state outside the subtree), copy_refused_instance,
+   copy_transitions_once_instance, copy_states_instance.
+
+   PARTIAL / REFUTED / MISSING
+   * (d), order: the planned "in the order collect_transitions gives on the guest" is FALSE in general
+     (C17_copy_transitions_guest_order_refuted): the order is the one found in the guest COPY at the end, whose children
+     lists have been rotated by rename_state (a renamed child goes to the end of its parent's list, a child with
+     renaming_func(name) = name stays).  Proved in general: the set of copied transitions, each once, and that the order
+     is collect_transitions' on that copy g2 (clause (d) of C17_copy_structure).  Proved in the two usual cases,
+     C17_copy_transitions_order: if renaming_func moves EVERY descendant, or NONE (the default), then
+     c_transitions h' = c_transitions host ++ map rs (guest transitions at collect_transitions guest (source :: D) []),
+     i.e. exactly the guest's own order (guest_loop_order tracks the children lists of the copy through the loop, CH).
+     Missing: the exact order for a renaming that fixes some descendants and moves others.
+   * C17_copy_sound without (K1)/(K2) is false: C17_copy_sound_unconditional_refuted (a final state replaces a state with
+     an outgoing transition: the host keeps a transition leaving a FinalState) and C17_copy_sound_history_memory_refuted
+     (the source is a history state whose memory is a sibling that is not copied: validate() fails afterwards).  Both
+     reproduce on /repo (checked by hand, read-only): copy_from_statechart performs no check of this kind.
+   * The condition on rho is the simple one (rh n = n or rh n not a state of the guest).  The model/Python also accept
+     some overlapping tables (rh a = b when b has already been renamed away); those are not covered.
+   * copy_refused_unchanged covers the three refusals before anything is written.  A failure inside the loop or in
+     add_transition leaves a partially extended host (Copy.v header; no atomicity is claimed for this operation). *)
 From Coq Require Import String Ascii List Bool ZArith NArith Arith Lia Permutation.
 From Sismic Require Import Base Chart Edit Copy.
 From SismicProofs Require Import SortLib EditProofs.
@@ -731,3 +822,1607 @@ Qed.
 Lemma descendants_parents_before : forall c, sound c -> forall n,
   parents_before c [n] (descendants_for c n).
 Proof. intros c HS n. apply bfs_parents_before. exact HS. Qed.
+
+(* ================================================================== 6. small library facts *)
+Lemma mem_app' : forall x l1 l2, mem x (l1 ++ l2) = mem x l1 || mem x l2.
+Proof.
+  intros x l1 l2; induction l1 as [|y l1 IH]; simpl; [reflexivity|]. rewrite IH, orb_assoc. reflexivity.
+Qed.
+
+Lemma NoDup_map_inj : forall {A B} (f : A -> B) l a b,
+  NoDup (map f l) -> In a l -> In b l -> f a = f b -> a = b.
+Proof.
+  intros A B f l; induction l as [|x l IH]; intros a b Hnd Ha Hb E; [destruct Ha|].
+  simpl in Hnd. inv Hnd. destruct Ha as [<-|Ha], Hb as [<-|Hb]; [reflexivity| | |apply IH; assumption].
+  - exfalso. apply H1. rewrite E. apply in_map. exact Hb.
+  - exfalso. apply H1. rewrite <- E. apply in_map. exact Ha.
+Qed.
+
+Lemma lookup_app : forall {V} k (d1 d2 : list (name * V)),
+  lookup k (d1 ++ d2) = match lookup k d1 with Some v => Some v | None => lookup k d2 end.
+Proof.
+  intros V k d1 d2; induction d1 as [|[k0 v0] d1 IH]; simpl; [reflexivity|].
+  destruct (str_eqb k k0); [reflexivity|exact IH].
+Qed.
+
+Lemma rename_ok_cond : forall g n new,
+  n = new \/ (has_state g new = false /\ has_state g n = true) ->
+  exists g1, rename_state g n new = (g1, EOk).
+Proof.
+  intros g n new H. rewrite rename_state_eq. destruct (seqbP n new) as [E|Hne]; [eauto|].
+  destruct H as [H|[H1 H2]]; [congruence|]. rewrite H1.
+  apply has_state_Some in H2. destruct H2 as [s Hs]. rewrite Hs. cbv zeta. eauto.
+Qed.
+
+Lemma img_anc : forall r c c', img r c c' -> sound c ->
+  (forall x y, anc c x y -> anc c' (r x) (r y)) /\
+  (forall x y, has_state c x = true -> has_state c y = true -> anc c' (r x) (r y) -> anc c x y).
+Proof.
+  intros r c c' HI HS. split.
+  - intros x y H. induction H as [x a H|x q a H H' IH].
+    + apply anc_parent. apply (im_parent _ _ _ HI _ _ H).
+    + eapply anc_step; [|exact IH]. apply (im_parent _ _ _ HI _ _ H).
+  - assert (G : forall x' y', anc c' x' y' -> forall x y, has_state c x = true -> has_state c y = true ->
+                x' = r x -> y' = r y -> anc c x y).
+    { intros x' y' H. induction H as [x' a' H|x' q' a' H H' IH]; intros x y Hx Hy -> E2.
+      - destruct (sound_state_parent c HS x Hx) as [p Hp].
+        pose proof (im_parent _ _ _ HI _ _ Hp) as Hp'. rewrite H in Hp'.
+        destruct p as [q|]; [|discriminate]. simpl in Hp'. inv Hp'.
+        assert (Hq : has_state c q = true) by (apply (sd_pc c HS _ _ Hp); reflexivity).
+        assert (q = y) by (apply (im_inj _ _ _ HI); [assumption|assumption|symmetry; assumption]). subst q. apply anc_parent. exact Hp.
+      - destruct (sound_state_parent c HS x Hx) as [p Hp].
+        pose proof (im_parent _ _ _ HI _ _ Hp) as Hp'. rewrite H in Hp'.
+        destruct p as [q|]; [|discriminate]. simpl in Hp'. inv Hp'.
+        assert (Hq : has_state c q = true) by (apply (sd_pc c HS _ _ Hp); reflexivity).
+        eapply anc_step; [exact Hp|]. apply (IH q y); auto. }
+    intros x y Hx Hy H. eapply G; eauto.
+Qed.
+
+Definition dummy_state : state := mkState "" KBasic None None None None [] [] [].
+
+(* ------------------------------------------------------------------ sync_states, add_transitions *)
+Lemma sync_states_spec : forall names g h,
+  c_name (sync_states g h names) = c_name h /\ c_description (sync_states g h names) = c_description h /\
+  c_preamble (sync_states g h names) = c_preamble h /\ c_parent (sync_states g h names) = c_parent h /\
+  c_children (sync_states g h names) = c_children h /\ c_transitions (sync_states g h names) = c_transitions h /\
+  (forall k, lookup k (c_states (sync_states g h names)) =
+             if mem k names then match state_for g k with Some st => Some st | None => lookup k (c_states h) end
+             else lookup k (c_states h)) /\
+  ((forall n, In n names -> lookup n (c_states h) <> None) ->
+   map fst (c_states (sync_states g h names)) = map fst (c_states h)).
+Proof.
+  induction names as [|n rest IH]; intros g h; simpl.
+  - repeat split; intros; reflexivity.
+  - destruct (state_for g n) as [st|] eqn:Est.
+    + destruct (IH g (with_states h (dset n st (c_states h)))) as [H1 [H2 [H3 [H4 [H5 [H6 [H7 H8]]]]]]].
+      cbn [with_states c_name c_description c_preamble c_parent c_children c_transitions c_states] in *.
+      repeat (split; [assumption|]). split.
+      * intros k. rewrite H7, lookup_dset. destruct (seqbP k n) as [->|Hk]; simpl.
+        -- rewrite Est. destruct (mem n rest); reflexivity.
+        -- reflexivity.
+      * intros Hk. rewrite H8.
+        -- rewrite keys_dset. assert (E : mem n (map fst (c_states h)) = true).
+           { apply mem_In. apply lookup_Some_In_keys. apply Hk. left; reflexivity. }
+           rewrite E. reflexivity.
+        -- intros m Hm. rewrite lookup_dset. destruct (str_eqb m n); [discriminate|]. apply Hk. right; exact Hm.
+    + destruct (IH g h) as [H1 [H2 [H3 [H4 [H5 [H6 [H7 H8]]]]]]].
+      repeat (split; [assumption|]). split.
+      * intros k. rewrite H7. destruct (seqbP k n) as [->|Hk]; simpl; [|reflexivity].
+        rewrite Est. destruct (mem n rest); reflexivity.
+      * intros Hk. apply H8. intros m Hm. apply Hk. right; exact Hm.
+Qed.
+
+Definition trans_ok (h : chart) (t : transition) : Prop :=
+  (exists s, lookup (t_source t) (c_states h) = Some s /\ owns_transitions (s_kind s) = true) /\
+  (forall tg, t_target t = Some tg -> has_state h tg = true).
+
+Lemma add_transitions_spec : forall ts h,
+  (forall t, In t ts -> trans_ok h t) ->
+  add_transitions h ts = (with_transitions h (c_transitions h ++ ts), EOk).
+Proof.
+  induction ts as [|t ts IH]; intros h H; simpl.
+  - rewrite app_nil_r. destruct h; reflexivity.
+  - destruct (H t (or_introl eq_refl)) as [[s [H1 H2]] H3].
+    assert (E : add_transition h t = (with_transitions h (c_transitions h ++ [t]), EOk)).
+    { unfold add_transition, state_for. rewrite H1, H2. cbn [negb].
+      destruct (t_target t) as [tg|] eqn:Et; [rewrite (H3 tg eq_refl)|]; reflexivity. }
+    rewrite E. cbn [eres_eqb negb]. rewrite IH.
+    + unfold with_transitions. cbn. rewrite <- app_assoc. reflexivity.
+    + intros t' Ht'. exact (H t' (or_intror Ht')).
+Qed.
+
+Lemma nth_trans_eq : forall l i, nth_trans l i = match nth_error l i with Some t => [t] | None => [] end.
+Proof.
+  induction l as [|x l IH]; intros [|i]; simpl; try reflexivity. apply IH.
+Qed.
+
+Lemma In_flat_nth_trans : forall l idxs t,
+  In t (flat_map (nth_trans l) idxs) <-> exists i, In i idxs /\ nth_error l i = Some t.
+Proof.
+  intros l idxs t. rewrite in_flat_map. split; intros [i [H1 H2]]; exists i; (split; [exact H1|]);
+    rewrite nth_trans_eq in *; destruct (nth_error l i) as [t'|].
+  - destruct H2 as [->|[]]. reflexivity.
+  - destruct H2.
+  - inv H2. left; reflexivity.
+  - discriminate.
+Qed.
+
+Lemma nth_trans_map : forall (f : transition -> transition) l i, nth_trans (map f l) i = map f (nth_trans l i).
+Proof. induction l as [|x l IH]; intros [|i]; simpl; try reflexivity. apply IH. Qed.
+
+Lemma flat_nth_trans_map : forall (f : transition -> transition) l idxs,
+  flat_map (nth_trans (map f l)) idxs = map f (flat_map (nth_trans l) idxs).
+Proof.
+  intros f l idxs; induction idxs as [|i idxs IH]; simpl; [reflexivity|].
+  rewrite map_app, nth_trans_map, IH. reflexivity.
+Qed.
+
+Lemma find_map_inj : forall (f : name -> name) l m,
+  NoDup (map f l) -> In m l -> find (fun k => str_eqb (f k) (f m)) l = Some m.
+Proof.
+  intros f l m; induction l as [|x l IH]; intros Hnd Hin; [destruct Hin|]. simpl in Hnd. inv Hnd. simpl.
+  destruct Hin as [->|Hin]; [rewrite seqb_refl; reflexivity|].
+  destruct (seqbP (f x) (f m)) as [E|_]; [|apply IH; assumption].
+  exfalso. apply H1. rewrite E. apply in_map. exact Hin.
+Qed.
+
+Lemma NoDup_map_on : forall {A B} (f : A -> B) l,
+  NoDup l -> (forall a b, In a l -> In b l -> f a = f b -> a = b) -> NoDup (map f l).
+Proof.
+  intros A B f l; induction l as [|x l IH]; intros Hnd Hinj; simpl; [constructor|]. inv Hnd. constructor.
+  - intros Hin. apply in_map_iff in Hin. destruct Hin as [y [E Hy]].
+    assert (y = x) by (apply Hinj; [right; exact Hy|left; reflexivity|exact E]). subst y. auto.
+  - apply IH; [assumption|]. intros a b Ha Hb. apply Hinj; right; assumption.
+Qed.
+
+(* ------------------------------------------------------------------ collect_transitions on an image *)
+Lemma remove_first_app_in : forall k l1 l2, In k l1 -> remove_first k (l1 ++ l2) = remove_first k l1 ++ l2.
+Proof.
+  intros k l1 l2; induction l1 as [|y l1 IH]; intros H; [destruct H|]. simpl.
+  destruct (seqbP k y) as [->|Hn]; [reflexivity|]. simpl. f_equal. apply IH. destruct H; [congruence|assumption].
+Qed.
+
+Lemma idx_filter_map_ext : forall (f f' : transition -> bool) (g : transition -> transition) l k,
+  (forall t, In t l -> f' (g t) = f t) -> idx_filter f' k (map g l) = idx_filter f k l.
+Proof.
+  intros f f' g l; induction l as [|t l IH]; intros k H; simpl; [reflexivity|].
+  rewrite (H t (or_introl eq_refl)), IH by (intros t' Ht'; apply H; right; exact Ht'). reflexivity.
+Qed.
+
+Lemma from_to_idx_img : forall r c c' n, img r c c' -> sound c -> has_state c n = true ->
+  from_idx c' (r n) = from_idx c n /\ to_idx c' (r n) = to_idx c n.
+Proof.
+  intros r c c' n HI HS Hn. unfold from_idx, to_idx. rewrite (im_trans _ _ _ HI).
+  assert (Hinj : forall x, has_state c x = true -> str_eqb (r x) (r n) = str_eqb x n).
+  { intros x Hx. destruct (seqbP x n) as [->|Hne]; [apply seqb_refl|]. apply seqb_neq. intros E. apply Hne.
+    apply (im_inj _ _ _ HI); assumption. }
+  split; apply idx_filter_map_ext; intros t Ht; destruct (sd_trans c HS t Ht) as [[s [Hs _]] Htg];
+    cbn [map_trans t_source t_target].
+  - apply Hinj. unfold has_state. rewrite Hs. reflexivity.
+  - destruct (t_target t) as [tg|] eqn:E; cbn [option_map].
+    + apply Hinj. apply Htg. reflexivity.
+    + apply Hinj. unfold has_state. rewrite Hs. reflexivity.
+Qed.
+
+Lemma collect_transitions_img : forall r c c', img r c c' -> sound c -> forall names seen,
+  (forall n, In n names -> has_state c n = true) ->
+  collect_transitions c' (map r names) seen = collect_transitions c names seen.
+Proof.
+  intros r c c' HI HS names; induction names as [|n names IH]; intros seen H; simpl; [reflexivity|].
+  destruct (from_to_idx_img r c c' n HI HS (H n (or_introl eq_refl))) as [-> ->].
+  apply IH. intros m Hm. apply H. right; exact Hm.
+Qed.
+
+(* ================================================================== 7. the main theorem *)
+Section Main.
+  Variables (host guest : chart) (source replace : name) (rho : list (name * name)).
+  Let D := descendants_for guest source.
+  Let rh := rho_apply rho.
+
+  Hypothesis HH : einv host.
+  Hypothesis HG : einv guest.
+  Hypothesis Hrep : has_state host replace = true.
+  Hypothesis Hleaf : children_for host replace = [].
+  Hypothesis Hsrc : has_state guest source = true.
+  Hypothesis Hrg : source = replace \/ has_state guest replace = false.
+  Hypothesis Hfresh_h : forall n, In n D -> has_state host (rh n) = false.
+  Hypothesis Hnonempty : forall n, In n D -> rh n <> "".
+  Hypothesis Hinj : NoDup (map rh D).
+  Hypothesis Hfresh_g : forall n, In n D -> rh n = n \/ has_state guest (rh n) = false.
+  Hypothesis Hkinds : forall n p sp sn, In n D -> lookup n (c_parent guest) = Some (Some p) ->
+    lookup p (c_states guest) = Some sp -> lookup n (c_states guest) = Some sn ->
+    is_composite (s_kind sp) = true /\ (is_history (s_kind sn) = true -> s_kind sp = KCompound).
+
+  Let GS : sound guest := proj1 HG.
+  Let GN : no_empty_name guest := proj1 (proj2 HG).
+  Let GF : fields_ok guest := proj2 (proj2 HG).
+  Let HS : sound host := proj1 HH.
+  Let HN : no_empty_name host := proj1 (proj2 HH).
+  Let HF : fields_ok host := proj2 (proj2 HH).
+
+  Definition state_of (n : name) : state :=
+    match lookup n (c_states guest) with Some s => s | None => dummy_state end.
+
+  (* the renaming after the descendants in `done` have been processed *)
+  Definition rsd (done : list name) (x : name) : name :=
+    if str_eqb x source then replace else if mem x done then rh x else x.
+
+  Lemma D_anc : forall n, In n D <-> anc guest n source.
+  Proof. intros n. apply descendants_for_spec. exact GS. Qed.
+
+  Lemma D_state : forall n, In n D -> has_state guest n = true.
+  Proof. intros n H. apply D_anc in H. exact (anc_has_state guest GS _ _ H). Qed.
+
+  Lemma D_nodup : NoDup D.
+  Proof. apply descendants_NoDup. exact GS. Qed.
+
+  Lemma src_notin_D : ~ In source D.
+  Proof. intros H. apply D_anc in H. exact (sound_anc_irrefl guest GS source H). Qed.
+
+  Lemma D_not_replace : forall n, In n D -> n <> replace.
+  Proof.
+    intros n H E0. destruct Hrg as [E|E].
+    - apply src_notin_D. rewrite E, <- E0. exact H.
+    - rewrite <- E0, (D_state _ H) in E. discriminate.
+  Qed.
+
+  Lemma rh_not_replace : forall n, In n D -> rh n <> replace.
+  Proof. intros n H E. rewrite <- E, (Hfresh_h _ H) in Hrep. discriminate. Qed.
+
+  Lemma replace_nonempty : replace <> "".
+  Proof. intros E. rewrite E in Hrep. unfold no_empty_name in HN. congruence. Qed.
+
+  Lemma rsd_source : forall done, rsd done source = replace.
+  Proof. intros done. unfold rsd. rewrite seqb_refl. reflexivity. Qed.
+
+  Lemma rsd_in : forall done n, n <> source -> In n done -> rsd done n = rh n.
+  Proof.
+    intros done n H1 H2. unfold rsd. destruct (seqbP n source); [congruence|].
+    apply mem_In in H2. rewrite H2. reflexivity.
+  Qed.
+
+  Lemma rsd_out : forall done n, n <> source -> ~ In n done -> rsd done n = n.
+  Proof.
+    intros done n H1 H2. unfold rsd. destruct (seqbP n source); [congruence|].
+    apply mem_false_iff in H2. rewrite H2. reflexivity.
+  Qed.
+
+  Lemma rsd_step : forall done n, In n D -> ~ In n done -> incl done D ->
+    forall x, ren n (rh n) (rsd done x) = rsd (done ++ [n]) x.
+  Proof.
+    intros done n Hn Hnd Hincl x. unfold rsd. rewrite mem_app'. cbn [mem]. rewrite orb_false_r.
+    destruct (seqbP x source) as [->|Hxs].
+    - apply ren_id. intros E. apply (D_not_replace n Hn). congruence.
+    - destruct (mem x done) eqn:Em.
+      + cbn [orb]. apply ren_id. apply mem_In in Em.
+        destruct (Hfresh_g x (Hincl _ Em)) as [E|E].
+        * rewrite E. intros ->. auto.
+        * intros E2. rewrite E2, (D_state _ Hn) in E. discriminate.
+      + cbn [orb]. destruct (seqbP x n) as [->|Hxn]; [apply ren_old|apply ren_id; exact Hxn].
+  Qed.
+
+  (* the entries handed to add_state *)
+  Fixpoint gentries (done rest : list name) : list entry :=
+    match rest with
+    | [] => []
+    | n :: rest' =>
+        (map_state (rsd (done ++ [n])) (state_of n), option_map (rsd (done ++ [n])) (parent_for guest n))
+        :: gentries (done ++ [n]) rest'
+    end.
+
+  Lemma guest_loop : forall rest done g,
+    done ++ rest = D -> einv g -> img (rsd done) guest g ->
+    exists g', guest_entries rest rho g = (g', gentries done rest, EOk) /\ einv g' /\ img (rsd D) guest g'.
+  Proof.
+    induction rest as [|n rest IH]; intros done g HD HE HI.
+    - rewrite app_nil_r in HD. subst done. exists g. auto.
+    - assert (Hn : In n D) by (rewrite <- HD; apply in_or_app; right; left; reflexivity).
+      assert (Hnd : ~ In n done).
+      { pose proof D_nodup as ND. rewrite <- HD in ND. apply NoDup_remove_2 in ND.
+        intros H. apply ND. apply in_or_app. left. exact H. }
+      assert (Hincl : incl done D) by (intros x Hx; rewrite <- HD; apply in_or_app; left; exact Hx).
+      assert (Hns : n <> source) by (intros ->; apply src_notin_D; exact Hn).
+      destruct HE as [gS [gN gF]].
+      assert (Hstn : has_state guest n = true) by (apply D_state; exact Hn).
+      destruct (proj1 (has_state_Some _ _) Hstn) as [sn Hsn].
+      destruct (sound_state_parent guest GS n Hstn) as [pn Hpn].
+      assert (Hgn : has_state g n = true).
+      { apply (im_has _ _ _ HI). exists n. split; [exact Hstn|]. symmetry. apply rsd_out; assumption. }
+      assert (Hnew : rh n = n \/ has_state g (rh n) = false).
+      { destruct (seqbP (rh n) n) as [E|Hne]; [left; exact E|right].
+        destruct (has_state g (rh n)) eqn:Eh; [|reflexivity]. exfalso.
+        apply (im_has _ _ _ HI) in Eh. destruct Eh as [k [Hk Ek]].
+        unfold rsd in Ek. destruct (seqbP k source) as [->|Hks].
+        - apply (rh_not_replace n Hn). exact Ek.
+        - destruct (mem k done) eqn:Em.
+          + apply mem_In in Em. assert (n = k); [|congruence].
+            apply (NoDup_map_inj rh D); auto.
+          + destruct (Hfresh_g n Hn) as [E|E]; [congruence|]. rewrite Ek, Hk in E. discriminate. }
+      destruct (rename_ok_cond g n (rh n)) as [g1 Hren].
+      { destruct Hnew as [E|E]; [left; symmetry; exact E|right; split; assumption]. }
+      pose proof (img_rename _ _ _ _ gS gF Hren) as HI1.
+      assert (HI2 : img (rsd (done ++ [n])) guest g1).
+      { eapply img_ext; [|eapply img_comp; [exact HI|exact HI1]]. intros x. apply rsd_step; assumption. }
+      destruct (rename_state_sound _ _ _ _ gS gF gN Hren) as [g1S [g1F g1N]].
+      specialize (g1N (Hnonempty n Hn)).
+      assert (Hrn : rsd (done ++ [n]) n = rh n).
+      { apply rsd_in; [exact Hns|apply in_or_app; right; left; reflexivity]. }
+      pose proof (im_states _ _ _ HI2 _ _ Hsn) as Hst1. rewrite Hrn in Hst1.
+      pose proof (im_parent _ _ _ HI2 _ _ Hpn) as Hpa1. rewrite Hrn in Hpa1.
+      destruct (IH (done ++ [n]) g1) as [g' [H1 [H2 H3]]].
+      { rewrite <- app_assoc. exact HD. }
+      { split; [|split]; assumption. }
+      { exact HI2. }
+      exists g'. split; [|split; assumption].
+      cbn [guest_entries gentries]. fold rh. rewrite Hren. cbn [eres_eqb negb].
+      unfold state_for. rewrite Hst1, H1. unfold parent_for at 1. rewrite Hpa1.
+      unfold state_of. rewrite Hsn. unfold parent_for. rewrite Hpn. reflexivity.
+  Qed.
+
+  Lemma D_parent : forall n, In n D ->
+    exists p, lookup n (c_parent guest) = Some (Some p) /\ (p = source \/ In p D).
+  Proof.
+    intros n H. apply D_anc in H. destruct (anc_inv _ _ _ H) as [q [Hq [E|Ha]]]; exists q; (split; [exact Hq|]).
+    - left. exact E.
+    - right. apply D_anc. exact Ha.
+  Qed.
+
+  Lemma rsd_app_other : forall done n p, p <> n -> rsd (done ++ [n]) p = rsd done p.
+  Proof.
+    intros done n p H. unfold rsd. rewrite mem_app'. cbn [mem]. destruct (seqbP p n); [congruence|].
+    rewrite !orb_false_r. reflexivity.
+  Qed.
+
+  (* the host's state dictionary while the loop runs *)
+  Definition InvS (done : list name) (Sl : list (name * state)) : Prop :=
+    (forall x, lookup x Sl = None <-> has_state host x = false /\ forall m, In m done -> x <> rh m) /\
+    (forall p sp, p = source \/ In p done -> lookup p (c_states guest) = Some sp ->
+       exists ps, lookup (rsd done p) Sl = Some ps /\ s_kind ps = s_kind sp).
+
+  Lemma entries_ok_loop : forall rest done Sl,
+    done ++ rest = D -> parents_before guest (source :: done) rest -> InvS done Sl ->
+    entries_ok Sl (gentries done rest).
+  Proof.
+    induction rest as [|n rest IH]; intros done Sl HD HP [I1 I2]; [exact I|].
+    assert (Hn : In n D) by (rewrite <- HD; apply in_or_app; right; left; reflexivity).
+    assert (Hnd : ~ In n done).
+    { pose proof D_nodup as ND. rewrite <- HD in ND. apply NoDup_remove_2 in ND.
+      intros H. apply ND. apply in_or_app. left. exact H. }
+    assert (Hincl : incl done D) by (intros x Hx; rewrite <- HD; apply in_or_app; left; exact Hx).
+    assert (Hns : n <> source) by (intros ->; apply src_notin_D; exact Hn).
+    assert (Hstn : has_state guest n = true) by (apply D_state; exact Hn).
+    destruct (proj1 (has_state_Some _ _) Hstn) as [sn Hsn].
+    assert (Est : state_of n = sn) by (unfold state_of; rewrite Hsn; reflexivity).
+    assert (Hrn : rsd (done ++ [n]) n = rh n).
+    { apply rsd_in; [exact Hns|apply in_or_app; right; left; reflexivity]. }
+    destruct HP as [[p [Hp Hpin]] HPrest].
+    cbn [gentries]. set (e := (map_state (rsd (done ++ [n])) (state_of n), option_map (rsd (done ++ [n])) (parent_for guest n))).
+    assert (Enm : e_name e = rh n).
+    { unfold e_name, e. cbn [fst map_state s_name]. rewrite Est, (sd_keyname guest GS _ _ Hsn). exact Hrn. }
+    assert (Hpn : p <> n).
+    { intros ->. destruct Hpin as [E|Hin]; [congruence|auto]. }
+    assert (Hpst : has_state guest p = true) by (apply (sd_pc guest GS _ _ Hp); reflexivity).
+    destruct (proj1 (has_state_Some _ _) Hpst) as [sp Hsp].
+    assert (Hfr : lookup (rh n) Sl = None).
+    { apply I1. split; [apply Hfresh_h; exact Hn|]. intros m Hm E. apply Hnd.
+      assert (n = m) by (apply (NoDup_map_inj rh D); auto). subst m. exact Hm. }
+    cbn [entries_ok]. rewrite Enm. split; [exact Hfr|]. split.
+    - destruct (I2 p sp) as [ps [Hps Hk]]; [destruct Hpin as [E|Hin]; [left; symmetry; exact E|right; exact Hin]|exact Hsp|].
+      exists (rsd done p), ps. split.
+      { unfold e. cbn [snd]. rewrite (parent_for_lookup _ _ _ Hp). cbn [option_map].
+        rewrite (rsd_app_other done n p Hpn). reflexivity. }
+      split.
+      { destruct Hpin as [<-|Hin].
+        - rewrite rsd_source. apply replace_nonempty.
+        - rewrite rsd_in; [apply Hnonempty; apply Hincl; exact Hin| |exact Hin].
+          intros ->. apply src_notin_D. apply Hincl. exact Hin. }
+      split; [exact Hps|].
+      destruct (Hkinds n p sp sn Hn Hp Hsp Hsn) as [K1 K2]. rewrite Hk. split; [exact K1|].
+      unfold e. cbn [fst map_state s_kind]. rewrite Est. exact K2.
+    - apply IH.
+      + rewrite <- app_assoc. exact HD.
+      + exact HPrest.
+      + split.
+        * intros x. rewrite lookup_app. cbn [lookup]. split.
+          -- intros H. destruct (lookup x Sl) eqn:E1; [discriminate|].
+             destruct (seqbP x (rh n)) as [|Hx]; [discriminate|]. apply I1 in E1. destruct E1 as [A B].
+             split; [exact A|]. intros m Hm. apply in_app_or in Hm.
+             destruct Hm as [Hm|[<-|[]]]; [apply B; exact Hm|exact Hx].
+          -- intros [A B]. assert (H : lookup x Sl = None).
+             { apply I1. split; [exact A|]. intros m Hm. apply B. apply in_or_app. left. exact Hm. }
+             rewrite H. destruct (seqbP x (rh n)) as [E|_]; [|reflexivity].
+             exfalso. apply (B n); [apply in_or_app; right; left; reflexivity|exact E].
+        * intros p' sp' Hp' Hsp'. destruct (string_dec p' n) as [->|Hne].
+          -- rewrite Hrn, lookup_app, Hfr. cbn [lookup]. rewrite seqb_refl. eexists. split; [reflexivity|].
+             unfold e. cbn [fst map_state s_kind]. rewrite Est. congruence.
+          -- rewrite (rsd_app_other done n p' Hne).
+             destruct (I2 p' sp') as [ps [Hps Hk]]; [|exact Hsp'|].
+             { destruct Hp' as [E|Hin]; [left; exact E|]. apply in_app_or in Hin.
+               destruct Hin as [Hin|[E|[]]]; [right; exact Hin|congruence]. }
+             exists ps. rewrite lookup_app, Hps. auto.
+  Qed.
+
+  (* ---------------------------------------------------------------- the first renaming: source -> replace *)
+  Lemma rsd_nil : forall x, rsd [] x = ren source replace x.
+  Proof. intros x. unfold rsd, ren. simpl. reflexivity. Qed.
+
+  Lemma subtree_child : forall x y, x = source \/ In x D -> In y (children_for guest x) -> In y D.
+  Proof.
+    intros x y Hx Hy. apply D_anc. pose proof (sound_child_parent guest GS _ _ Hy) as Hp.
+    destruct Hx as [->|Hx]; [apply anc_parent; exact Hp|].
+    eapply anc_step; [exact Hp|apply D_anc; exact Hx].
+  Qed.
+
+  Lemma first_rename :
+    exists g1, rename_state guest source replace = (g1, EOk) /\ einv g1 /\ img (rsd []) guest g1 /\
+               descendants_for g1 replace = D.
+  Proof.
+    destruct (rename_ok_cond guest source replace) as [g1 Hren].
+    { destruct Hrg as [E|E]; [left; exact E|right; split; assumption]. }
+    exists g1. split; [exact Hren|].
+    pose proof (img_rename _ _ _ _ GS GF Hren) as HI.
+    destruct (rename_state_sound _ _ _ _ GS GF GN Hren) as [S1 [F1 N1]].
+    specialize (N1 replace_nonempty).
+    split; [split; [|split]; assumption|].
+    split; [eapply img_ext; [|exact HI]; intros x; symmetry; apply rsd_nil|].
+    destruct (seqbP source replace) as [E|Hne].
+    - rewrite rename_state_eq in Hren. apply seqb_eq in E. rewrite E in Hren. inv Hren.
+      apply seqb_eq in E. rewrite <- E. reflexivity.
+    - unfold descendants_for. rewrite (im_len _ _ _ HI).
+      assert (Eq : [replace] = map (ren source replace) [source]) by (simpl; rewrite ren_old; reflexivity).
+      rewrite Eq.
+      rewrite (bfs_map (ren source replace) guest g1 (fun x => x = source \/ In x D)).
+      + apply map_ren_id. exact src_notin_D.
+      + intros x Hx.
+        assert (Hxs : has_state guest x = true) by (destruct Hx as [->|Hx]; [exact Hsrc|apply D_state; exact Hx]).
+        rewrite (rename_children_for _ _ _ _ GS Hne Hren x Hxs).
+        destruct (ostr_eqb (parent_for guest source) (Some x)) eqn:Ep.
+        * exfalso. apply ostr_eqb_eq in Ep. unfold parent_for in Ep.
+          destruct (lookup source (c_parent guest)) as [pp|] eqn:Epp; [|discriminate]. subst pp.
+          assert (Ha : anc guest source x) by (apply anc_parent; exact Epp).
+          destruct Hx as [->|Hx]; [exact (sound_anc_irrefl guest GS _ Ha)|].
+          apply D_anc in Hx. exact (sound_anc_irrefl guest GS _ (anc_trans _ _ _ _ Ha Hx)).
+        * symmetry. apply map_ren_id. intros Hin. apply src_notin_D. eapply subtree_child; eauto.
+      + intros x Hx y Hy. right. eapply subtree_child; eauto.
+      + intros x [<-|[]]. left; reflexivity.
+  Qed.
+
+  (* ---------------------------------------------------------------- the loop, both sides *)
+  Definition st0 : state := map_state (rsd []) (state_of source).
+  Definition h1 : chart := with_states host (dset replace st0 (c_states host)).
+
+  Lemma h1_lookup : forall x, lookup x (c_states h1) = if str_eqb x replace then Some st0 else lookup x (c_states host).
+  Proof. intros x. unfold h1. cbn [with_states c_states]. apply lookup_dset. Qed.
+
+  Lemma h1_has_state : forall x, has_state h1 x = has_state host x.
+  Proof.
+    intros x. unfold has_state. rewrite h1_lookup. destruct (seqbP x replace) as [->|]; [|reflexivity].
+    unfold has_state in Hrep. destruct (lookup replace (c_states host)); [reflexivity|discriminate].
+  Qed.
+
+  Lemma h1_aligned : aligned h1.
+  Proof.
+    destruct (sound_aligned host HS) as [A1 A2]. split.
+    - intros n. rewrite h1_has_state. apply A1.
+    - intros n. rewrite h1_has_state. apply A2.
+  Qed.
+
+  Lemma src_state : exists ss, lookup source (c_states guest) = Some ss /\ state_of source = ss.
+  Proof.
+    destruct (proj1 (has_state_Some _ _) Hsrc) as [ss Hss]. exists ss. split; [exact Hss|].
+    unfold state_of. rewrite Hss. reflexivity.
+  Qed.
+
+  Lemma InvS_init : InvS [] (c_states h1).
+  Proof.
+    split.
+    - intros x. rewrite <- has_state_false, h1_has_state. split; [intros H; split; [exact H|intros m []]|tauto].
+    - intros p sp [->|[]] Hsp. rewrite rsd_source, h1_lookup, seqb_refl. eexists. split; [reflexivity|].
+      unfold st0, state_of. rewrite Hsp. reflexivity.
+  Qed.
+
+  Lemma gentries_names : forall rest done, done ++ rest = D -> map e_name (gentries done rest) = map rh rest.
+  Proof.
+    induction rest as [|n rest IH]; intros done HD; [reflexivity|].
+    assert (Hn : In n D) by (rewrite <- HD; apply in_or_app; right; left; reflexivity).
+    assert (Hns : n <> source) by (intros ->; apply src_notin_D; exact Hn).
+    destruct (proj1 (has_state_Some _ _) (D_state _ Hn)) as [sn Hsn].
+    cbn [gentries map]. f_equal.
+    - unfold e_name. cbn [fst map_state s_name]. unfold state_of. rewrite Hsn, (sd_keyname guest GS _ _ Hsn).
+      apply rsd_in; [exact Hns|apply in_or_app; right; left; reflexivity].
+    - apply IH. rewrite <- app_assoc. exact HD.
+  Qed.
+
+  Definition E_all : list entry := gentries [] D.
+
+  Lemma run_loop :
+    exists g1 g2 h2,
+      rename_state guest source replace = (g1, EOk) /\ state_for g1 replace = Some st0 /\
+      descendants_for g1 replace = D /\
+      copy_states D rho g1 h1 [] = (g2, h2, map rh D, EOk) /\
+      einv g2 /\ img (rsd D) guest g2 /\ host_ext h1 E_all h2 /\ aligned h2.
+  Proof.
+    destruct first_rename as [g1 [Hren [HE1 [HI1 HD1]]]].
+    destruct (guest_loop D [] g1 eq_refl HE1 HI1) as [g2 [Hge [HE2 HI2]]].
+    assert (Hok : entries_ok (c_states h1) E_all).
+    { apply entries_ok_loop; [reflexivity| |exact InvS_init]. apply descendants_parents_before. exact GS. }
+    destruct (add_entries_ok _ _ h1_aligned Hok) as [h2 Hadd].
+    destruct (add_entries_spec _ _ _ h1_aligned Hadd) as [Hext [Hal _]].
+    exists g1, g2, h2. split; [exact Hren|]. split.
+    { destruct src_state as [ss [Hss Ess]]. unfold state_for.
+      pose proof (im_states _ _ _ HI1 _ _ Hss) as H. rewrite rsd_source in H. unfold st0. rewrite Ess. exact H. }
+    split; [exact HD1|]. split; [|auto].
+    apply copy_states_decompose. exists E_all. split; [exact Hge|]. split; [exact Hadd|reflexivity].
+  Qed.
+
+  (* ---------------------------------------------------------------- the final renaming *)
+  Definition rs : name -> name := rsd D.
+
+  Lemma rs_source : rs source = replace.
+  Proof. apply rsd_source. Qed.
+
+  Lemma rs_D : forall n, In n D -> rs n = rh n.
+  Proof. intros n H. apply rsd_in; [intros ->; apply src_notin_D; exact H|exact H]. Qed.
+
+  Lemma rs_map_D : forall l, incl l D -> map rs l = map rh l.
+  Proof. intros l H. apply map_ext_in. intros x Hx. apply rs_D. apply H. exact Hx. Qed.
+
+  Lemma rs_inj_S : forall a b, a = source \/ In a D -> b = source \/ In b D -> rs a = rs b -> a = b.
+  Proof.
+    intros a b [->|Ha] [->|Hb] E; [reflexivity| | |].
+    - rewrite rs_source, (rs_D _ Hb) in E. exfalso. apply (rh_not_replace b Hb). auto.
+    - rewrite rs_source, (rs_D _ Ha) in E. exfalso. apply (rh_not_replace a Ha). auto.
+    - rewrite (rs_D _ Ha), (rs_D _ Hb) in E. apply (NoDup_map_inj rh D); auto.
+  Qed.
+
+  Lemma rsd_prefix : forall done n p, incl done D -> In n D -> p = source \/ In p done ->
+    rsd (done ++ [n]) p = rs p.
+  Proof.
+    intros done n p Hincl Hn [->|Hp].
+    - rewrite rsd_source, rs_source. reflexivity.
+    - assert (Hps : p <> source) by (intros ->; apply src_notin_D; apply Hincl; exact Hp).
+      rewrite rsd_in; [|exact Hps|apply in_or_app; left; exact Hp].
+      symmetry. apply rs_D. apply Hincl. exact Hp.
+  Qed.
+
+  Lemma gentries_parents : forall rest done, done ++ rest = D -> parents_before guest (source :: done) rest ->
+    map (fun e => (e_name e, snd e)) (gentries done rest) =
+    map (fun n => (rh n, option_map rs (parent_for guest n))) rest.
+  Proof.
+    induction rest as [|n rest IH]; intros done HD HP; [reflexivity|].
+    assert (Hn : In n D) by (rewrite <- HD; apply in_or_app; right; left; reflexivity).
+    assert (Hincl : incl done D) by (intros x Hx; rewrite <- HD; apply in_or_app; left; exact Hx).
+    destruct HP as [[p [Hp Hpin]] HPrest].
+    pose proof (gentries_names (n :: rest) done HD) as Hnm. cbn [gentries map] in Hnm. injection Hnm as Hnm1 _.
+    cbn [gentries map]. f_equal.
+    - rewrite Hnm1. cbn [snd]. rewrite (parent_for_lookup _ _ _ Hp). cbn [option_map]. f_equal. f_equal.
+      apply rsd_prefix; [exact Hincl|exact Hn|]. destruct Hpin as [E|Hin]; [left; symmetry; exact E|right; exact Hin].
+    - apply IH; [rewrite <- app_assoc; exact HD|exact HPrest].
+  Qed.
+
+  Lemma E_all_parents :
+    map (fun e => (e_name e, snd e)) E_all = map (fun n => (rh n, option_map rs (parent_for guest n))) D.
+  Proof. apply gentries_parents; [reflexivity|apply descendants_parents_before; exact GS]. Qed.
+
+  Lemma E_all_names : map e_name E_all = map rh D.
+  Proof. apply gentries_names. reflexivity. Qed.
+
+  (* entries as (name, parent-in-the-guest) pairs *)
+  Lemma kids_of_pairs : forall (E : list entry) (l : list name) (par : name -> option name) k,
+    map (fun e => (e_name e, snd e)) E = map (fun n => (rh n, par n)) l ->
+    kids_of E k = map rh (filter (fun n => opt_eqb str_eqb (par n) k) l).
+  Proof.
+    induction E as [|e E IH]; intros [|n l] par k H; simpl in H; try discriminate; [reflexivity|].
+    injection H as H1 H2 H3. rewrite kids_of_cons, (IH l par k H3). cbn [filter]. unfold e_par_is. rewrite H2.
+    destruct (opt_eqb str_eqb (par n) k); cbn [map app]; rewrite ?H1; reflexivity.
+  Qed.
+
+  Lemma kids_of_S : forall k, k = source \/ In k D ->
+    kids_of E_all (Some (rs k)) = map rs (children_for guest k).
+  Proof.
+    intros k Hk. rewrite (kids_of_pairs _ _ _ _ E_all_parents).
+    rewrite <- (descendants_filter_children guest GS source k Hk). fold D.
+    rewrite rs_map_D by (intros x Hx; apply filter_In in Hx; apply Hx).
+    f_equal. apply filter_ext_in. intros n Hn. unfold child_of, ostr_eqb.
+    destruct (D_parent n Hn) as [p [Hp Hpin]]. rewrite (parent_for_lookup _ _ _ Hp). cbn [option_map opt_eqb].
+    destruct (seqbP p k) as [->|Hne]; [apply seqb_refl|]. apply seqb_neq. intros E. apply Hne.
+    apply rs_inj_S; assumption.
+  Qed.
+
+  Lemma kids_of_other : forall k, (forall j, j = source \/ In j D -> k <> Some (rs j)) -> kids_of E_all k = [].
+  Proof.
+    intros k Hk. rewrite (kids_of_pairs _ _ _ _ E_all_parents).
+    assert (H : forall l, incl l D -> filter (fun n => opt_eqb str_eqb (option_map rs (parent_for guest n)) k) l = []).
+    { induction l as [|n l IH]; intros Hl; [reflexivity|]. cbn [filter].
+      destruct (D_parent n (Hl n (or_introl eq_refl))) as [p [Hp Hpin]].
+      rewrite (parent_for_lookup _ _ _ Hp). cbn [option_map].
+      destruct (oeqbP (Some (rs p)) k) as [E|_]; [exfalso; apply (Hk p Hpin); auto|].
+      apply IH. intros x Hx. apply Hl. right; exact Hx. }
+    rewrite H; [reflexivity|apply incl_refl].
+  Qed.
+
+  Lemma is_new_E_all : forall k, is_new E_all k = true <-> exists n, In n D /\ k = Some (rh n).
+  Proof.
+    intros k. unfold is_new. rewrite existsb_exists. split.
+    - intros [e [He Hk]]. apply oeqb_eq in Hk. assert (Hin : In (e_name e) (map e_name E_all)) by (apply in_map; exact He).
+      rewrite E_all_names in Hin. apply in_map_iff in Hin. destruct Hin as [n [Hn1 Hn2]]. exists n. split; [exact Hn2|congruence].
+    - intros [n [Hn ->]]. assert (Hin : In (rh n) (map e_name E_all)) by (rewrite E_all_names; apply in_map; exact Hn).
+      apply in_map_iff in Hin. destruct Hin as [e [He1 He2]]. exists e. split; [exact He2|]. rewrite He1. apply oeqb_refl.
+  Qed.
+
+  (* all guest transitions that touch the subtree are contained in it *)
+  Hypothesis Htrans : forall t, In t (c_transitions guest) ->
+    forall tg, t_target t = Some tg ->
+      ((t_source t = source \/ In (t_source t) D) <-> (tg = source \/ In tg D)).
+
+  Section Final.
+    Variables (g2 h2 : chart).
+    Hypothesis HE2 : einv g2.
+    Hypothesis HI2 : img rs guest g2.
+    Hypothesis Hext : host_ext h1 E_all h2.
+
+    Definition h3 : chart := sync_states g2 h2 (replace :: map rh D).
+    Definition names2 : list name := replace :: descendants_for g2 replace.
+    Definition ts2 : list transition :=
+      flat_map (nth_trans (c_transitions g2)) (collect_transitions g2 names2 []).
+    Definition hfinal : chart := with_transitions h3 (c_transitions h3 ++ ts2).
+
+    Lemma names2_spec : forall x, In x names2 <-> exists k, (k = source \/ In k D) /\ x = rs k.
+    Proof.
+      intros x. unfold names2. destruct HE2 as [S2 _].
+      destruct (img_anc _ _ _ HI2 GS) as [A1 A2]. split.
+      - intros [<-|Hx].
+        + exists source. split; [left; reflexivity|symmetry; apply rs_source].
+        + apply (descendants_for_spec g2 S2) in Hx. pose proof (anc_has_state g2 S2 _ _ Hx) as Hs.
+          apply (im_has _ _ _ HI2) in Hs. destruct Hs as [k [Hk ->]]. exists k. split; [|reflexivity].
+          right. apply D_anc. apply A2; [exact Hk|exact Hsrc|]. rewrite rs_source. exact Hx.
+      - intros [k [[->|Hk] ->]]; [left; symmetry; apply rs_source|right].
+        apply (descendants_for_spec g2 S2). rewrite <- rs_source. apply A1. apply D_anc. exact Hk.
+    Qed.
+
+    Lemma h2_states : c_states h2 = c_states h1 ++ map (fun e => (e_name e, fst e)) E_all.
+    Proof. apply (he_states _ _ _ Hext). Qed.
+
+    Lemma h2_keys : map fst (c_states h2) = map fst (c_states host) ++ map rh D.
+    Proof.
+      rewrite h2_states, map_app, map_map. cbn [fst]. rewrite <- E_all_names. f_equal.
+      unfold h1. cbn [with_states c_states]. rewrite keys_dset.
+      assert (E : mem replace (map fst (c_states host)) = true) by (apply mem_In, has_state_In; exact Hrep).
+      rewrite E. reflexivity.
+    Qed.
+
+    Lemma h3_facts :
+      c_name h3 = c_name host /\ c_description h3 = c_description host /\ c_preamble h3 = c_preamble host /\
+      c_parent h3 = c_parent h2 /\ c_children h3 = c_children h2 /\ c_transitions h3 = c_transitions host /\
+      map fst (c_states h3) = map fst (c_states host) ++ map rh D.
+    Proof.
+      destruct (sync_states_spec (replace :: map rh D) g2 h2) as [H1 [H2 [H3 [H4 [H5 [H6 [_ H8]]]]]]].
+      fold h3 in *. rewrite H1, H2, H3, H6, (he_name _ _ _ Hext), (he_desc _ _ _ Hext), (he_pre _ _ _ Hext),
+        (he_trans _ _ _ Hext).
+      repeat (split; [reflexivity || assumption|]). rewrite H8; [apply h2_keys|].
+      intros n Hn. apply lookup_Some_In_keys. rewrite h2_keys. apply in_or_app.
+      destruct Hn as [<-|Hn]; [left; apply has_state_In; exact Hrep|right; exact Hn].
+    Qed.
+
+    Lemma mem_rs_S : forall k, k = source \/ In k D -> mem (rs k) (replace :: map rh D) = true.
+    Proof.
+      intros k [->|Hk]; apply mem_In; [left; symmetry; apply rs_source|right].
+      rewrite (rs_D _ Hk). apply in_map. exact Hk.
+    Qed.
+
+    Lemma h3_lookup_S : forall k sk, k = source \/ In k D -> lookup k (c_states guest) = Some sk ->
+      lookup (rs k) (c_states h3) = Some (map_state rs sk).
+    Proof.
+      intros k sk Hk Hsk.
+      destruct (sync_states_spec (replace :: map rh D) g2 h2) as [_ [_ [_ [_ [_ [_ [H7 _]]]]]]]. fold h3 in H7.
+      rewrite H7, (mem_rs_S k Hk). unfold state_for. rewrite (im_states _ _ _ HI2 _ _ Hsk). reflexivity.
+    Qed.
+
+    Lemma h3_lookup_host : forall x, has_state host x = true -> x <> replace ->
+      lookup x (c_states h3) = lookup x (c_states host).
+    Proof.
+      intros x Hx Hxr.
+      destruct (sync_states_spec (replace :: map rh D) g2 h2) as [_ [_ [_ [_ [_ [_ [H7 _]]]]]]]. fold h3 in H7.
+      rewrite H7. assert (E : mem x (replace :: map rh D) = false).
+      { apply mem_false_iff. intros [E|Hin]; [congruence|]. apply in_map_iff in Hin.
+        destruct Hin as [n [<- Hn]]. rewrite (Hfresh_h n Hn) in Hx. discriminate. }
+      rewrite E, h2_states, lookup_app, h1_lookup. destruct (seqbP x replace); [congruence|].
+      apply has_state_Some in Hx. destruct Hx as [s Hs]. rewrite Hs. reflexivity.
+    Qed.
+
+    Lemma h3_has_state : forall x, has_state h3 x = true <-> has_state host x = true \/ In x (map rh D).
+    Proof.
+      intros x. rewrite !has_state_In. destruct h3_facts as [_ [_ [_ [_ [_ [_ H]]]]]]. rewrite H, in_app_iff. tauto.
+    Qed.
+
+    Lemma h3_has_state_S : forall k, k = source \/ In k D -> has_state h3 (rs k) = true.
+    Proof.
+      intros k Hk. apply h3_has_state. destruct Hk as [->|Hk].
+      - left. rewrite rs_source. exact Hrep.
+      - right. rewrite (rs_D _ Hk). apply in_map. exact Hk.
+    Qed.
+
+    (* the transitions that are copied: images of the guest transitions with both ends in the subtree *)
+    Lemma ts2_spec : forall t, In t ts2 -> exists t0, In t0 (c_transitions guest) /\ t = map_trans rs t0 /\
+      (t_source t0 = source \/ In (t_source t0) D) /\
+      (forall tg, t_target t0 = Some tg -> tg = source \/ In tg D).
+    Proof.
+      intros t Ht. unfold ts2 in Ht. apply In_flat_nth_trans in Ht. destruct Ht as [i [Hi Hn]].
+      destruct (copy_transitions_once g2 names2) as [_ Hc]. apply Hc in Hi. destruct Hi as [t' [Hn' Htouch]].
+      rewrite Hn in Hn'. inv Hn'. rewrite (im_trans _ _ _ HI2) in Hn. rewrite nth_error_map in Hn.
+      destruct (nth_error (c_transitions guest) i) as [t0|] eqn:E0; [|discriminate]. simpl in Hn. inv Hn.
+      apply nth_error_In in E0. exists t0. split; [exact E0|]. split; [reflexivity|].
+      destruct (sd_trans guest GS t0 E0) as [[ss [Hss _]] Htg].
+      assert (Hsst : has_state guest (t_source t0) = true) by (unfold has_state; rewrite Hss; reflexivity).
+      assert (Hback : forall x, has_state guest x = true -> In (rs x) names2 -> x = source \/ In x D).
+      { intros x Hx Hin. apply names2_spec in Hin. destruct Hin as [k [Hk Ek]].
+        assert (Hks : has_state guest k = true) by (destruct Hk as [->|Hk]; [exact Hsrc|apply D_state; exact Hk]).
+        rewrite (im_inj _ _ _ HI2 x k Hx Hks Ek). exact Hk. }
+      cbn [map_trans t_source t_target] in Htouch.
+      destruct (t_target t0) as [tg0|] eqn:Etg.
+      - assert (Hor : (t_source t0 = source \/ In (t_source t0) D) \/ (tg0 = source \/ In tg0 D)).
+        { destruct Htouch as [H|[tg [H1 H2]]].
+          - left. apply Hback; assumption.
+          - right. simpl in H1. inv H1. apply Hback; [apply Htg; reflexivity|exact H2]. }
+        pose proof (Htrans t0 E0 tg0 Etg) as Hiff.
+        split; [tauto|]. intros tg E. inv E. tauto.
+      - split; [|intros tg E; discriminate].
+        destruct Htouch as [H|[tg [H1 H2]]]; [apply Hback; assumption|discriminate].
+    Qed.
+
+    Lemma ts2_ok : forall t, In t ts2 -> trans_ok h3 t.
+    Proof.
+      intros t Ht. destruct (ts2_spec t Ht) as [t0 [H0 [-> [Hs Htg]]]].
+      destruct (sd_trans guest GS t0 H0) as [[ss [Hss Hown]] _]. split.
+      - exists (map_state rs ss). split; [apply h3_lookup_S; assumption|exact Hown].
+      - intros tg E. cbn [map_trans t_target] in E. destruct (t_target t0) as [tg0|]; [|discriminate].
+        simpl in E. inv E. apply h3_has_state_S. apply Htg. reflexivity.
+    Qed.
+  End Final.
+
+  (* ---------------------------------------------------------------- the call succeeds *)
+  Lemma copy_run :
+    exists g2 h2, einv g2 /\ img rs guest g2 /\ host_ext h1 E_all h2 /\
+      copy_from_statechart host guest source replace rho = (hfinal g2 h2, EOk).
+  Proof.
+    destruct run_loop as [g1 [g2 [h2 [Hren [Hst [HD1 [Hcopy [HE2 [HI2 [Hext Hal]]]]]]]]]].
+    exists g2, h2. split; [exact HE2|]. split; [exact HI2|]. split; [exact Hext|].
+    unfold copy_from_statechart. rewrite Hrep. cbn [negb]. rewrite Hleaf, Hren. cbn [eres_eqb negb].
+    rewrite Hst. cbv zeta. fold h1. rewrite HD1. fold D. rewrite Hcopy. cbn [eres_eqb negb].
+    apply add_transitions_spec. intros t Ht. apply (ts2_ok g2 h2 HE2 HI2 Hext). exact Ht.
+  Qed.
+
+  (* ---------------------------------------------------------------- goal 3 *)
+  Definition in_S (x : name) : Prop := x = source \/ In x D.
+
+  Theorem C17_copy_structure :
+    exists h', copy_from_statechart host guest source replace rho = (h', EOk) /\
+    (* (a) the names, in order *)
+    map fst (c_states h') = map fst (c_states host) ++ map rh D /\
+    c_parent h' = c_parent host ++ map (fun n => (rh n, option_map rs (parent_for guest n))) D /\
+    map fst (c_children h') = map fst (c_children host) ++ map (fun n => Some (rh n)) D /\
+    (* (b) the copied subtree *)
+    (forall n s, in_S n -> lookup n (c_states guest) = Some s ->
+       lookup (rs n) (c_states h') = Some (map_state rs s)) /\
+    (forall n, In n D -> lookup (rs n) (c_parent h') = Some (option_map rs (parent_for guest n))) /\
+    lookup replace (c_parent h') = lookup replace (c_parent host) /\
+    (forall n, in_S n -> olookup (Some (rs n)) (c_children h') = Some (map rs (children_for guest n))) /\
+    (* (c) the rest of the host *)
+    (forall x, has_state host x = true -> x <> replace -> lookup x (c_states h') = lookup x (c_states host)) /\
+    (forall x, has_state host x = true -> lookup x (c_parent h') = lookup x (c_parent host)) /\
+    (forall k, olookup k (c_children host) <> None -> k <> Some replace ->
+       olookup k (c_children h') = olookup k (c_children host)) /\
+    (* (d) the transitions *)
+    (exists g2 idxs,
+       (* g2: the guest copy at the end of the call, an image of the guest under rs *)
+       einv g2 /\ img rs guest g2 /\
+       idxs = collect_transitions g2 (replace :: descendants_for g2 replace) [] /\
+       c_transitions h' =
+         c_transitions host ++ map (map_trans rs) (flat_map (nth_trans (c_transitions guest)) idxs) /\
+       NoDup idxs /\
+       forall i, In i idxs <-> exists t, nth_error (c_transitions guest) i = Some t /\
+                                  (in_S (t_source t) \/ exists tg, t_target t = Some tg /\ in_S tg)) /\
+    (* (e) *)
+    c_name h' = c_name host /\ c_description h' = c_description host /\ c_preamble h' = c_preamble host.
+  Proof.
+    destruct copy_run as [g2 [h2 [HE2 [HI2 [Hext Hrun]]]]].
+    exists (hfinal g2 h2). split; [exact Hrun|].
+    destruct (h3_facts g2 h2 Hext) as [N1 [N2 [N3 [N4 [N5 [N6 N7]]]]]].
+    unfold hfinal. cbn [with_transitions c_name c_description c_preamble c_states c_parent c_children c_transitions].
+    assert (HP : c_parent h2 = c_parent host ++ map (fun n => (rh n, option_map rs (parent_for guest n))) D).
+    { rewrite (he_parent _ _ _ Hext), E_all_parents. reflexivity. }
+    assert (HC : forall k, olookup k (c_children h2) =
+                 match olookup k (c_children host) with
+                 | Some l => Some (l ++ kids_of E_all k)
+                 | None => if is_new E_all k then Some (kids_of E_all k) else None
+                 end).
+    { intros k. apply (he_children _ _ _ Hext). }
+    split; [exact N7|]. split; [rewrite N4; exact HP|]. split.
+    { rewrite N5, (he_ckeys _ _ _ Hext). unfold h1. cbn [with_states c_children]. f_equal.
+      rewrite <- (map_map e_name Some), E_all_names, map_map. reflexivity. }
+    split; [intros n s Hn Hs; apply (h3_lookup_S g2 h2 HI2); assumption|].
+    assert (HPD : forall n, In n D -> lookup (rs n) (c_parent h2) = Some (option_map rs (parent_for guest n))).
+    { intros n Hn. rewrite HP, lookup_app, (rs_D _ Hn).
+      rewrite (sound_nostate_parent host HS _ (Hfresh_h n Hn)).
+      assert (G : forall l, In n l -> NoDup (map rh l) ->
+                  lookup (rh n) (map (fun n0 => (rh n0, option_map rs (parent_for guest n0))) l) =
+                  Some (option_map rs (parent_for guest n))).
+      { induction l as [|m l IH]; intros Hin Hnd; [destruct Hin|]. cbn [map lookup]. simpl in Hnd. inv Hnd.
+        destruct Hin as [->|Hin]; [rewrite seqb_refl; reflexivity|].
+        destruct (seqbP (rh n) (rh m)) as [E|_]; [|apply IH; assumption].
+        exfalso. apply H1. rewrite <- E. apply in_map. exact Hin. }
+      apply G; [exact Hn|exact Hinj]. }
+    split; [intros n Hn; rewrite N4; apply HPD; exact Hn|].
+    assert (HPH : forall x, has_state host x = true -> lookup x (c_parent h2) = lookup x (c_parent host)).
+    { intros x Hx. rewrite HP, lookup_app.
+      destruct (sound_state_parent host HS x Hx) as [px Hpx]. rewrite Hpx. reflexivity. }
+    split; [rewrite N4; apply HPH; exact Hrep|].
+    split.
+    { intros n Hn. rewrite N5, HC, (kids_of_S n Hn). destruct Hn as [->|Hn].
+      - rewrite rs_source. destruct (sound_state_children host HS replace Hrep) as [l Hl]. rewrite Hl.
+        rewrite <- (children_for_lookup _ _ _ Hl), Hleaf. reflexivity.
+      - rewrite (rs_D _ Hn), (sound_nostate_children host HS _ (Hfresh_h n Hn)).
+        assert (E : is_new E_all (Some (rh n)) = true) by (apply is_new_E_all; eauto). rewrite E. reflexivity. }
+    split; [intros x Hx Hxr; apply (h3_lookup_host g2 h2 Hext); assumption|].
+    split; [intros x Hx; rewrite N4; apply HPH; exact Hx|].
+    split.
+    { intros k Hk Hkr. rewrite N5, HC. destruct (olookup k (c_children host)) as [l|] eqn:El; [|congruence].
+      rewrite kids_of_other; [rewrite app_nil_r; reflexivity|].
+      intros j [->|Hj] E.
+      - rewrite rs_source in E. congruence.
+      - rewrite (rs_D _ Hj) in E. subst k.
+        assert (X : has_state host (rh j) = true) by (apply (sd_ckeys host HS); congruence).
+        rewrite (Hfresh_h j Hj) in X. discriminate. }
+    split; [|auto].
+    exists g2, (collect_transitions g2 (names2 g2) []). split; [exact HE2|]. split; [exact HI2|].
+    split; [reflexivity|]. split; [|split].
+    - rewrite N6. f_equal. unfold ts2. rewrite (im_trans _ _ _ HI2). apply flat_nth_trans_map.
+    - apply copy_transitions_once.
+    - intros i. destruct (copy_transitions_once g2 (names2 g2)) as [_ Hc]. rewrite Hc.
+      rewrite (im_trans _ _ _ HI2).
+      assert (Hback : forall x, has_state guest x = true -> (In (rs x) (names2 g2) <-> in_S x)).
+      { intros x Hx. rewrite names2_spec by assumption. split.
+        - intros [k [Hk Ek]].
+          assert (Hks : has_state guest k = true) by (destruct Hk as [->|Hk]; [exact Hsrc|apply D_state; exact Hk]).
+          rewrite (im_inj _ _ _ HI2 x k Hx Hks Ek). exact Hk.
+        - intros H. exists x. auto. }
+      split.
+      + intros [t' [Hn Htouch]]. rewrite nth_error_map in Hn.
+        destruct (nth_error (c_transitions guest) i) as [t0|] eqn:E0; [|discriminate]. simpl in Hn. inv Hn.
+        exists t0. split; [reflexivity|]. pose proof (nth_error_In _ _ E0) as Hin0.
+        destruct (sd_trans guest GS t0 Hin0) as [[ss [Hss _]] Htg].
+        assert (Hsst : has_state guest (t_source t0) = true) by (unfold has_state; rewrite Hss; reflexivity).
+        cbn [map_trans t_source t_target] in Htouch. destruct Htouch as [H|[tg [H1 H2]]].
+        * left. apply Hback; assumption.
+        * right. destruct (t_target t0) as [tg0|] eqn:Etg; [|discriminate]. simpl in H1. inv H1.
+          exists tg0. split; [reflexivity|]. apply Hback; [apply Htg; reflexivity|exact H2].
+      + intros [t0 [E0 Htouch]]. exists (map_trans rs t0). rewrite nth_error_map, E0. split; [reflexivity|].
+        pose proof (nth_error_In _ _ E0) as Hin0.
+        destruct (sd_trans guest GS t0 Hin0) as [[ss [Hss _]] Htg].
+        assert (Hsst : has_state guest (t_source t0) = true) by (unfold has_state; rewrite Hss; reflexivity).
+        cbn [map_trans t_source t_target]. destruct Htouch as [H|[tg [H1 H2]]].
+        * left. apply Hback; assumption.
+        * right. exists (rs tg). rewrite H1. split; [reflexivity|]. apply Hback; [apply Htg; exact H1|exact H2].
+  Qed.
+
+  (* ---------------------------------------------------------------- goal 4: the result is sound *)
+  Lemma in_S_state : forall n, in_S n -> has_state guest n = true.
+  Proof. intros n [->|H]; [exact Hsrc|apply D_state; exact H]. Qed.
+
+  Lemma guest_initial_child : forall n sn i0, in_S n -> lookup n (c_states guest) = Some sn ->
+    s_initial sn = Some i0 -> In i0 (children_for guest n) /\ In i0 D.
+  Proof.
+    intros n sn i0 Hn Hsn Hi. destruct (GF _ _ Hsn) as [F1 _]. destruct (sd_refs guest GS _ _ Hsn) as [R1 _].
+    assert (Hi0 : i0 <> "").
+    { intros ->. pose proof GN as GN'. unfold no_empty_name in GN'. rewrite (R1 _ Hi) in GN'. discriminate. }
+    destruct (sd_vinit guest GS n sn i0 Hsn (F1 _ Hi)) as [_ H]; [rewrite Hi; apply truthy_nonempty; exact Hi0|].
+    split; [exact H|]. eapply subtree_child; eauto.
+  Qed.
+
+  Lemma guest_memory_sibling : forall n sn m0, In n D -> lookup n (c_states guest) = Some sn ->
+    s_memory sn = Some m0 ->
+    m0 <> n /\ In m0 D /\ exists p, lookup n (c_parent guest) = Some (Some p) /\ in_S p /\ In m0 (children_for guest p).
+  Proof.
+    intros n sn m0 Hn Hsn Hm. destruct (GF _ _ Hsn) as [_ F2].
+    destruct (sd_vmem guest GS n sn m0 Hsn (F2 _ Hm) Hm) as [H1 [_ [p [H3 H4]]]].
+    destruct (D_parent n Hn) as [p' [Hp' Hin]]. rewrite (parent_for_lookup _ _ _ Hp') in H3. inv H3.
+    split; [exact H1|]. split; [eapply subtree_child; eauto|]. exists p. auto.
+  Qed.
+
+  Section SoundPost.
+    Variable h' : chart.
+    Hypothesis A1 : map fst (c_states h') = map fst (c_states host) ++ map rh D.
+    Hypothesis A2 : c_parent h' = c_parent host ++ map (fun n => (rh n, option_map rs (parent_for guest n))) D.
+    Hypothesis A3 : map fst (c_children h') = map fst (c_children host) ++ map (fun n => Some (rh n)) D.
+    Hypothesis B1 : forall n s, in_S n -> lookup n (c_states guest) = Some s ->
+       lookup (rs n) (c_states h') = Some (map_state rs s).
+    Hypothesis B2 : forall n, In n D -> lookup (rs n) (c_parent h') = Some (option_map rs (parent_for guest n)).
+    Hypothesis B4 : forall n, in_S n -> olookup (Some (rs n)) (c_children h') = Some (map rs (children_for guest n)).
+    Hypothesis C1 : forall x, has_state host x = true -> x <> replace -> lookup x (c_states h') = lookup x (c_states host).
+    Hypothesis C2 : forall x, has_state host x = true -> lookup x (c_parent h') = lookup x (c_parent host).
+    Hypothesis C3 : forall k, olookup k (c_children host) <> None -> k <> Some replace ->
+       olookup k (c_children h') = olookup k (c_children host).
+    Variable idxs : list nat.
+    Hypothesis T1 : c_transitions h' =
+       c_transitions host ++ map (map_trans rs) (flat_map (nth_trans (c_transitions guest)) idxs).
+    Hypothesis T3 : forall i, In i idxs <-> exists t, nth_error (c_transitions guest) i = Some t /\
+                                  (in_S (t_source t) \/ exists tg, t_target t = Some tg /\ in_S tg).
+    (* the two extra conditions *)
+    Hypothesis K1 : s_memory (state_of source) = None.
+    Hypothesis K2 : forall t, In t (c_transitions host) -> t_source t = replace ->
+       owns_transitions (s_kind (state_of source)) = true.
+
+    Lemma sp_has : forall x, has_state h' x = true <-> has_state host x = true \/ In x (map rh D).
+    Proof. intros x. rewrite !has_state_In, A1, in_app_iff. tauto. Qed.
+
+    Lemma sp_has_S : forall n, in_S n -> has_state h' (rs n) = true.
+    Proof.
+      intros n [->|Hn]; apply sp_has; [left; rewrite rs_source; exact Hrep|right].
+      rewrite (rs_D _ Hn). apply in_map. exact Hn.
+    Qed.
+
+    Lemma sp_cases : forall k, has_state h' k = true ->
+      (has_state host k = true /\ k <> replace) \/ exists n, in_S n /\ k = rs n.
+    Proof.
+      intros k Hk. apply sp_has in Hk. destruct Hk as [Hk|Hk].
+      - destruct (string_dec k replace) as [->|Hne]; [right; exists source; split; [left; reflexivity|symmetry; apply rs_source]|left; auto].
+      - right. apply in_map_iff in Hk. destruct Hk as [n [<- Hn]]. exists n. split; [right; exact Hn|symmetry; apply rs_D; exact Hn].
+    Qed.
+
+    Lemma sp_children_S : forall n, in_S n -> children_for h' (rs n) = map rs (children_for guest n).
+    Proof. intros n Hn. apply children_for_lookup. apply B4. exact Hn. Qed.
+
+    Lemma sp_children_host : forall x, has_state host x = true -> x <> replace ->
+      children_for h' x = children_for host x.
+    Proof.
+      intros x Hx Hne. unfold children_for. rewrite C3; [reflexivity| |congruence].
+      apply (sd_ckeys host HS). exact Hx.
+    Qed.
+
+    Lemma host_parent_not_replace : forall x, lookup x (c_parent host) = Some (Some replace) -> False.
+    Proof.
+      intros x Hx. pose proof (sound_parent_child host HS _ _ Hx) as H. rewrite Hleaf in H. destruct H.
+    Qed.
+
+
+    Lemma sp_cases_p : forall k, has_state h' k = true ->
+      has_state host k = true \/ exists n, In n D /\ k = rs n.
+    Proof.
+      intros k Hk. apply sp_has in Hk. destruct Hk as [Hk|Hk]; [left; exact Hk|right].
+      apply in_map_iff in Hk. destruct Hk as [n [<- Hn]]. exists n. split; [exact Hn|symmetry; apply rs_D; exact Hn].
+    Qed.
+
+    Lemma sp_state_cases : forall k s, lookup k (c_states h') = Some s ->
+      (has_state host k = true /\ k <> replace /\ lookup k (c_states host) = Some s) \/
+      (exists n sn, in_S n /\ k = rs n /\ lookup n (c_states guest) = Some sn /\ s = map_state rs sn).
+    Proof.
+      intros k s Hk. assert (Hh : has_state h' k = true) by (unfold has_state; rewrite Hk; reflexivity).
+      destruct (sp_cases k Hh) as [[H1 H2]|[n [Hn ->]]].
+      - left. rewrite (C1 k H1 H2) in Hk. auto.
+      - right. destruct (proj1 (has_state_Some _ _) (in_S_state n Hn)) as [sn Hsn].
+        exists n, sn. rewrite (B1 n sn Hn Hsn) in Hk. inv Hk. auto.
+    Qed.
+
+    Lemma sp_pkeys : forall n, lookup n (c_parent h') <> None <-> has_state h' n = true.
+    Proof.
+      intros n. rewrite lookup_Some_In_keys, has_state_In, A1, A2, map_app, map_map. cbn [fst].
+      rewrite !in_app_iff.
+      assert (E : In n (map fst (c_parent host)) <-> In n (map fst (c_states host))).
+      { rewrite <- lookup_Some_In_keys, <- has_state_In. apply (sd_pkeys host HS). }
+      rewrite E. reflexivity.
+    Qed.
+
+    Lemma sp_ckeys : forall n, olookup (Some n) (c_children h') <> None <-> has_state h' n = true.
+    Proof.
+      intros n. rewrite olookup_None_iff_not, A3, sp_has, in_app_iff. split; intros [H|H].
+      - left. apply (sd_ckeys host HS), olookup_None_iff_not. exact H.
+      - right. apply in_map_iff in H. destruct H as [m [E Hm]]. inv E. apply in_map. exact Hm.
+      - left. apply olookup_None_iff_not. apply (sd_ckeys host HS). exact H.
+      - right. apply in_map_iff in H. destruct H as [m [<- Hm]]. apply in_map_iff. exists m. auto.
+    Qed.
+
+    Lemma sp_rs_children_nodup : forall n, in_S n -> NoDup (map rs (children_for guest n)).
+    Proof.
+      intros n Hn. apply NoDup_map_on; [apply sound_children_for_NoDup; exact GS|].
+      intros a b Ha Hb. apply rs_inj_S; right; eapply subtree_child; eauto.
+    Qed.
+
+    Lemma sp_cp_S : forall n, in_S n -> forall ch, In ch (map rs (children_for guest n)) ->
+      lookup ch (c_parent h') = Some (Some (rs n)).
+    Proof.
+      intros n Hn ch Hch. apply in_map_iff in Hch. destruct Hch as [c [<- Hc]].
+      rewrite (B2 c (subtree_child _ _ Hn Hc)).
+      rewrite (parent_for_lookup _ _ _ (sound_child_parent guest GS _ _ Hc)). reflexivity.
+    Qed.
+
+    Lemma sp_parent_D : forall m, In m D -> exists pm, lookup m (c_parent guest) = Some (Some pm) /\ in_S pm /\
+      lookup (rs m) (c_parent h') = Some (Some (rs pm)).
+    Proof.
+      intros m Hm. destruct (D_parent m Hm) as [pm [Hpm Hin]]. exists pm. split; [exact Hpm|]. split; [exact Hin|].
+      rewrite (B2 m Hm), (parent_for_lookup _ _ _ Hpm). reflexivity.
+    Qed.
+
+    Lemma sp_trans_new : forall t, In t (map (map_trans rs) (flat_map (nth_trans (c_transitions guest)) idxs)) ->
+      exists t0, In t0 (c_transitions guest) /\ t = map_trans rs t0 /\ in_S (t_source t0) /\
+                 (forall tg, t_target t0 = Some tg -> in_S tg).
+    Proof.
+      intros t Ht. apply in_map_iff in Ht. destruct Ht as [t0 [<- Ht0]].
+      apply In_flat_nth_trans in Ht0. destruct Ht0 as [i [Hi Hn]].
+      apply T3 in Hi. destruct Hi as [t1 [Hn1 Htouch]]. rewrite Hn in Hn1. inv Hn1.
+      pose proof (nth_error_In _ _ Hn) as Hin. exists t1. split; [exact Hin|]. split; [reflexivity|].
+      destruct (t_target t1) as [tg0|] eqn:Etg.
+      - pose proof (Htrans t1 Hin tg0 Etg) as Hiff. unfold in_S in *.
+        assert (Hor : (t_source t1 = source \/ In (t_source t1) D) \/ (tg0 = source \/ In tg0 D)).
+        { destruct Htouch as [H|[tg [H1 H2]]]; [left; exact H|right; inv H1; exact H2]. }
+        split; [tauto|]. intros tg E. inv E. tauto.
+      - split; [|intros tg E; discriminate]. destruct Htouch as [H|[tg [H1 _]]]; [exact H|discriminate].
+    Qed.
+
+    Theorem sp_sound : sound h'.
+    Proof.
+      constructor.
+      - (* nd_states *) rewrite A1. apply NoDup_app_intro; [apply (sd_nd_states host HS)|exact Hinj|].
+        intros x Hx Hy. apply in_map_iff in Hy. destruct Hy as [n [<- Hn]]. apply has_state_In in Hx.
+        rewrite (Hfresh_h n Hn) in Hx. discriminate.
+      - (* nd_parent *) rewrite A2, map_app, map_map. cbn [fst].
+        apply NoDup_app_intro; [apply (sd_nd_parent host HS)|exact Hinj|].
+        intros x Hx Hy. apply in_map_iff in Hy. destruct Hy as [n [<- Hn]].
+        apply lookup_Some_In_keys, (sd_pkeys host HS) in Hx. rewrite (Hfresh_h n Hn) in Hx. discriminate.
+      - (* nd_children *) rewrite A3. apply NoDup_app_intro; [apply (sd_nd_children host HS)| |].
+        + rewrite <- (map_map rh Some). apply NoDup_map_on; [exact Hinj|intros a b _ _ E; inv E; reflexivity].
+        + intros x Hx Hy. apply in_map_iff in Hy. destruct Hy as [n [<- Hn]].
+          apply olookup_None_iff_not, (sd_ckeys host HS) in Hx. rewrite (Hfresh_h n Hn) in Hx. discriminate.
+      - (* keyname *) intros k s Hk. destruct (sp_state_cases k s Hk) as [[_ [_ H]]|[n [sn [_ [-> [Hsn ->]]]]]].
+        + apply (sd_keyname host HS _ _ H).
+        + cbn [map_state s_name]. rewrite (sd_keyname guest GS _ _ Hsn). reflexivity.
+      - exact sp_pkeys.
+      - exact sp_ckeys.
+      - (* ctop *) apply olookup_None_iff_not. rewrite A3. apply in_or_app. left.
+        apply olookup_None_iff_not. apply (sd_ctop host HS).
+      - (* pc *) intros n p Hp.
+        assert (Hn : has_state h' n = true) by (apply sp_pkeys; congruence).
+        destruct (sp_cases_p n Hn) as [Hh|[m [Hm ->]]].
+        + rewrite (C2 n Hh) in Hp. destruct (sd_pc host HS _ _ Hp) as [P1 [l [P2 P3]]]. split.
+          * intros q E. apply sp_has. left. apply P1. exact E.
+          * exists l. split; [|exact P3]. rewrite C3; [exact P2|congruence|].
+            intros ->. exact (host_parent_not_replace _ Hp).
+        + destruct (sp_parent_D m Hm) as [pm [Hpm [Hin Hl]]]. rewrite Hl in Hp. inv Hp. split.
+          * intros q E. inv E. apply sp_has_S. exact Hin.
+          * exists (map rs (children_for guest pm)). split; [apply B4; exact Hin|].
+            apply NoDup_count_one; [apply sp_rs_children_nodup; exact Hin|].
+            apply in_map. apply sound_parent_child; assumption.
+      - (* cp *) intros k l ch Hl Hin.
+        assert (Hk : In k (map fst (c_children h'))) by (apply olookup_None_iff_not; congruence).
+        rewrite A3 in Hk. apply in_app_or in Hk. destruct Hk as [Hk|Hk].
+        + destruct (oname_dec k (Some replace)) as [->|Hne].
+          * rewrite <- rs_source in Hl |- *. rewrite (B4 source (or_introl eq_refl)) in Hl. inv Hl.
+            apply sp_cp_S; [left; reflexivity|exact Hin].
+          * apply olookup_None_iff_not in Hk. rewrite (C3 k Hk Hne) in Hl.
+            pose proof (sd_cp host HS _ _ _ Hl Hin) as Hp. rewrite C2; [exact Hp|].
+            apply (sound_child_state host HS _ _ _ Hl Hin).
+        + apply in_map_iff in Hk. destruct Hk as [m [<- Hm]]. rewrite <- (rs_D _ Hm) in Hl |- *.
+          rewrite (B4 m (or_intror Hm)) in Hl. inv Hl. apply sp_cp_S; [right; exact Hm|exact Hin].
+      - (* top *) intros l Hl. rewrite C3 in Hl; [apply (sd_top host HS _ Hl)|apply (sd_ctop host HS)|discriminate].
+      - (* acyc *) destruct (sd_acyc host HS) as [rkh Hh]. destruct (sd_acyc guest GS) as [rkg Hg].
+        exists (fun x => if has_state host x then rkh x
+                         else match find (fun m => str_eqb (rh m) x) D with
+                              | Some m => rkh replace + 1 + rkg m
+                              | None => 0
+                              end).
+        intros n q Hp.
+        assert (Hn : has_state h' n = true) by (apply sp_pkeys; congruence).
+        destruct (sp_cases_p n Hn) as [Hhn|[m [Hm ->]]].
+        * rewrite (C2 n Hhn) in Hp. destruct (sd_pc host HS _ _ Hp) as [P1 _].
+          rewrite Hhn, (P1 q eq_refl). apply (Hh _ _ Hp).
+        * destruct (sp_parent_D m Hm) as [pm [Hpm [Hin Hl]]]. rewrite Hl in Hp. inv Hp.
+          rewrite (rs_D _ Hm), (Hfresh_h m Hm), (find_map_inj rh D m Hinj Hm).
+          destruct Hin as [->|Hin].
+          -- rewrite rs_source, Hrep. lia.
+          -- rewrite (rs_D _ Hin), (Hfresh_h pm Hin), (find_map_inj rh D pm Hinj Hin).
+             pose proof (Hg _ _ Hpm). lia.
+      - (* trans *) intros t Ht. rewrite T1 in Ht. apply in_app_or in Ht. destruct Ht as [Ht|Ht].
+        + destruct (sd_trans host HS t Ht) as [[s [Hs Hown]] Htg]. split.
+          * destruct (string_dec (t_source t) replace) as [E|Hne].
+            -- destruct src_state as [ss [Hss Ess]]. exists (map_state rs ss). split.
+               ++ rewrite E, <- rs_source. apply B1; [left; reflexivity|exact Hss].
+               ++ cbn [map_state s_kind]. rewrite <- Ess. apply (K2 t Ht E).
+            -- exists s. split; [|exact Hown]. rewrite C1; [exact Hs| |exact Hne].
+               unfold has_state. rewrite Hs. reflexivity.
+          * intros tg E. apply sp_has. left. apply Htg. exact E.
+        + destruct (sp_trans_new t Ht) as [t0 [H0 [-> [Hs Htg]]]].
+          destruct (sd_trans guest GS t0 H0) as [[ss [Hss Hown]] _]. split.
+          * exists (map_state rs ss). split; [apply B1; assumption|exact Hown].
+          * intros tg E. cbn [map_trans t_target] in E. destruct (t_target t0) as [tg0|]; [|discriminate].
+            simpl in E. inv E. apply sp_has_S. apply Htg. reflexivity.
+      - (* refs *) intros k s Hk. destruct (sp_state_cases k s Hk) as [[_ [_ H]]|[n [sn [Hn [-> [Hsn ->]]]]]].
+        + destruct (sd_refs host HS _ _ H) as [R1 R2]. split; intros x E; apply sp_has; left; auto.
+        + cbn [map_state s_initial s_memory]. split.
+          * intros i E. destruct (s_initial sn) as [i0|] eqn:Ei; [|discriminate]. simpl in E. inv E.
+            apply sp_has_S. right. apply (guest_initial_child n sn i0 Hn Hsn Ei).
+          * intros m E. destruct (s_memory sn) as [m0|] eqn:Em; [|discriminate]. simpl in E. inv E.
+            destruct Hn as [->|Hn].
+            -- exfalso. unfold state_of in K1. rewrite Hsn in K1. congruence.
+            -- apply sp_has_S. right. apply (guest_memory_sibling n sn m0 Hn Hsn Em).
+      - (* vinit *) intros k s i Hk Hkind Hini.
+        destruct (sp_state_cases k s Hk) as [[Hh [Hne H]]|[n [sn [Hn [-> [Hsn ->]]]]]].
+        + destruct (sd_vinit host HS k s i H Hkind Hini) as [V1 V2]. split; [apply sp_has; left; exact V1|].
+          rewrite (sp_children_host k Hh Hne). exact V2.
+        + apply truthy_Some in Hini. destruct Hini as [Hini _]. cbn [map_state s_initial] in Hini.
+          destruct (s_initial sn) as [i0|] eqn:Ei; [|discriminate]. simpl in Hini. inv Hini.
+          destruct (guest_initial_child n sn i0 Hn Hsn Ei) as [G1 G2].
+          split; [apply sp_has_S; right; exact G2|]. rewrite (sp_children_S n Hn). apply in_map. exact G1.
+      - (* vmem *) intros k s m Hk Hkind Hm.
+        destruct (sp_state_cases k s Hk) as [[Hh [Hne H]]|[n [sn [Hn [-> [Hsn ->]]]]]].
+        + destruct (sd_vmem host HS k s m H Hkind Hm) as [V1 [V2 [p [V3 V4]]]].
+          split; [exact V1|]. split; [apply sp_has; left; exact V2|]. exists p.
+          assert (Hpk : lookup k (c_parent host) = Some (Some p)).
+          { unfold parent_for in V3. destruct (lookup k (c_parent host)) as [pp|]; [congruence|discriminate]. }
+          split; [unfold parent_for; rewrite (C2 k Hh), Hpk; reflexivity|].
+          rewrite sp_children_host; [exact V4|apply (sd_pc host HS _ _ Hpk); reflexivity|].
+          intros ->. exact (host_parent_not_replace _ Hpk).
+        + cbn [map_state s_memory] in Hm. destruct (s_memory sn) as [m0|] eqn:Em; [|discriminate].
+          simpl in Hm. inv Hm. destruct Hn as [->|Hn].
+          { exfalso. unfold state_of in K1. rewrite Hsn in K1. congruence. }
+          destruct (guest_memory_sibling n sn m0 Hn Hsn Em) as [M1 [M2 [p [M3 [M4 M5]]]]].
+          split; [intros E; apply M1; apply rs_inj_S; [right; exact M2|right; exact Hn|exact E]|].
+          split; [apply sp_has_S; right; exact M2|]. exists (rs p). split.
+          * unfold parent_for. rewrite (B2 n Hn), (parent_for_lookup _ _ _ M3). reflexivity.
+          * rewrite (sp_children_S p M4). apply in_map. exact M5.
+    Qed.
+
+    Theorem sp_einv : einv h'.
+    Proof.
+      split; [exact sp_sound|]. split.
+      - unfold no_empty_name. destruct (has_state h' "") eqn:E; [|reflexivity]. exfalso.
+        apply sp_has in E. destruct E as [E|E].
+        + pose proof HN as HN'. unfold no_empty_name in HN'. congruence.
+        + apply in_map_iff in E. destruct E as [n [E Hn]]. exact (Hnonempty n Hn E).
+      - intros k s Hk. destruct (sp_state_cases k s Hk) as [[_ [_ H]]|[n [sn [Hn [-> [Hsn ->]]]]]].
+        + apply (HF _ _ H).
+        + destruct (GF _ _ Hsn) as [F1 F2]. cbn [map_state s_initial s_memory s_kind]. split.
+          * intros i E. destruct (s_initial sn) as [i0|] eqn:Ei; [|discriminate]. apply (F1 i0 eq_refl).
+          * intros m E. destruct (s_memory sn) as [m0|] eqn:Em; [|discriminate]. apply (F2 m0 eq_refl).
+    Qed.
+  End SoundPost.
+
+  Theorem C17_copy_sound :
+    s_memory (state_of source) = None ->
+    (forall t, In t (c_transitions host) -> t_source t = replace ->
+       owns_transitions (s_kind (state_of source)) = true) ->
+    exists h', copy_from_statechart host guest source replace rho = (h', EOk) /\ einv h'.
+  Proof.
+    intros K1 K2.
+    destruct C17_copy_structure
+      as [h' [Hrun [A1 [A2 [A3 [B1 [B2 [B3 [B4 [C1 [C2 [C3 [[g2 [idxs [_ [_ [_ [T1 [T2 T3]]]]]]] _]]]]]]]]]]]]].
+    exists h'. split; [exact Hrun|]. eapply sp_einv; eauto.
+  Qed.
+  (* ---------------------------------------------------------------- the order of the copied transitions *)
+  (* children lists of the guest copy while the loop runs: the unprocessed children in their old order, then the
+     processed ones in the order of processing (rename_state moves a really renamed child to the end) *)
+  Definition CH (done : list name) (g : chart) : Prop :=
+    forall k, in_S k ->
+      children_for g (rsd done k) =
+      map (rsd done) (filter (fun x => negb (mem x done)) (children_for guest k) ++
+                      filter (fun x => mem x (children_for guest k)) done).
+
+  Lemma CH_init : forall g1, rename_state guest source replace = (g1, EOk) -> CH [] g1.
+  Proof.
+    intros g1 Hren k Hk. cbn [filter]. rewrite app_nil_r.
+    assert (Hf : filter (fun x => negb (mem x [])) (children_for guest k) = children_for guest k)
+      by (apply filter_true; reflexivity).
+    rewrite Hf, rsd_nil, (map_ext _ _ rsd_nil).
+    assert (Hid : map (ren source replace) (children_for guest k) = children_for guest k).
+    { apply map_ren_id. intros Hin. apply src_notin_D. eapply subtree_child; eauto. }
+    rewrite Hid. destruct (seqbP source replace) as [E|Hne].
+    - rewrite rename_state_eq in Hren. apply seqb_eq in E. rewrite E in Hren. inv Hren.
+      apply seqb_eq in E. rewrite <- E, ren_refl. reflexivity.
+    - rewrite (rename_children_for _ _ _ _ GS Hne Hren k (in_S_state k Hk)).
+      destruct (ostr_eqb (parent_for guest source) (Some k)) eqn:Ep; [|reflexivity].
+      exfalso. apply ostr_eqb_eq in Ep. unfold parent_for in Ep.
+      destruct (lookup source (c_parent guest)) as [pp|] eqn:Epp; [|discriminate]. subst pp.
+      assert (Ha : anc guest source k) by (apply anc_parent; exact Epp).
+      destruct Hk as [->|Hk]; [exact (sound_anc_irrefl guest GS _ Ha)|].
+      apply D_anc in Hk. exact (sound_anc_irrefl guest GS _ (anc_trans _ _ _ _ Ha Hk)).
+  Qed.
+
+  Lemma filter_false' : forall {A} (p : A -> bool) l, (forall x, In x l -> p x = false) -> filter p l = [].
+  Proof.
+    intros A p l; induction l as [|x l IH]; intros H; [reflexivity|]. simpl.
+    rewrite (H x (or_introl eq_refl)). apply IH. intros y Hy. apply H. right; exact Hy.
+  Qed.
+
+  Lemma guest_loop_order : (forall n, In n D -> rh n <> n) ->
+    forall rest done g g' E, done ++ rest = D -> einv g -> img (rsd done) guest g -> CH done g ->
+    guest_entries rest rho g = (g', E, EOk) -> CH D g'.
+  Proof.
+    intros Hmoved. induction rest as [|n rest IH]; intros done g g' E HD HE HI HC Hge.
+    - simpl in Hge. inv Hge. rewrite app_nil_r in HD. rewrite <- HD. exact HC.
+    - assert (Hn : In n D) by (rewrite <- HD; apply in_or_app; right; left; reflexivity).
+      assert (Hnd : ~ In n done).
+      { pose proof D_nodup as ND. rewrite <- HD in ND. apply NoDup_remove_2 in ND.
+        intros H. apply ND. apply in_or_app. left. exact H. }
+      assert (Hincl : incl done D) by (intros x Hx; rewrite <- HD; apply in_or_app; left; exact Hx).
+      assert (Hns : n <> source) by (intros ->; apply src_notin_D; exact Hn).
+      destruct HE as [gS [gN gF]].
+      cbn [guest_entries] in Hge. fold rh in Hge.
+      destruct (rename_state g n (rh n)) as [g1 r1] eqn:Hren.
+      destruct (negb (eres_eqb r1 EOk)) eqn:Er1; [apply eres_ok_true in Er1; inv Hge; congruence|].
+      apply eres_ok_false in Er1. subst r1.
+      destruct (state_for g1 (rh n)) as [st|]; [|inv Hge].
+      destruct (guest_entries rest rho g1) as [[g'' E''] r''] eqn:Hge1. inv Hge.
+      pose proof (img_rename _ _ _ _ gS gF Hren) as HI1.
+      assert (HI2 : img (rsd (done ++ [n])) guest g1).
+      { eapply img_ext; [|eapply img_comp; [exact HI|exact HI1]]. intros x. apply rsd_step; assumption. }
+      destruct (rename_state_sound _ _ _ _ gS gF gN Hren) as [g1S [g1F g1N]].
+      specialize (g1N (Hnonempty n Hn)).
+      apply (IH (done ++ [n]) g1 g' E''); [rewrite <- app_assoc; exact HD|split; [|split]; assumption|exact HI2| |exact Hge1].
+      intros k Hk. rewrite <- (rsd_step done n Hn Hnd Hincl k).
+      assert (Hk' : has_state g (rsd done k) = true).
+      { apply (im_has _ _ _ HI). exists k. split; [apply in_S_state; exact Hk|reflexivity]. }
+      assert (Hne : n <> rh n) by (intros E; apply (Hmoved n Hn); symmetry; exact E).
+      rewrite (rename_children_for g n (rh n) g1 gS Hne Hren _ Hk'), (HC k Hk).
+      destruct (D_parent n Hn) as [pn [Hpn Hpin]].
+      pose proof (im_parent _ _ _ HI _ _ Hpn) as Hpg. rewrite (rsd_out done n Hns Hnd) in Hpg.
+      rewrite (parent_for_lookup _ _ _ Hpg). cbn [option_map]. unfold ostr_eqb. cbn [opt_eqb].
+      set (ch := children_for guest k).
+      assert (HchD : forall x, In x ch -> In x D) by (intros x Hx; exact (subtree_child k x Hk Hx)).
+      assert (Hout : forall dn x, In x ch -> ~ In x dn -> rsd dn x = x).
+      { intros dn x Hx Hnx. apply rsd_out; [|exact Hnx]. intros ->. apply src_notin_D. apply HchD. exact Hx. }
+      assert (HB : forall x, In x (filter (fun x => mem x ch) done) -> rsd (done ++ [n]) x = rsd done x).
+      { intros x Hx. apply filter_In in Hx. destruct Hx as [Hx _]. apply rsd_app_other. intros ->. auto. }
+      destruct (string_dec pn k) as [->|Hpk].
+      + rewrite seqb_refl.
+        assert (Hnch : In n ch) by (apply sound_parent_child; assumption).
+        assert (HnA : In n (filter (fun x => negb (mem x done)) ch)).
+        { apply filter_In. split; [exact Hnch|]. apply negb_true_iff, mem_false_iff. exact Hnd. }
+        assert (HA : map (rsd done) (filter (fun x => negb (mem x done)) ch) = filter (fun x => negb (mem x done)) ch).
+        { apply map_id_in. intros x Hx. apply filter_In in Hx. destruct Hx as [Hx1 Hx2].
+          apply Hout; [exact Hx1|]. apply negb_true_iff, mem_false_iff in Hx2. exact Hx2. }
+        assert (HA' : filter (fun x => negb (mem x (done ++ [n]))) ch =
+                      filter (fun x => negb (str_eqb x n)) (filter (fun x => negb (mem x done)) ch)).
+        { rewrite filter_filter. apply filter_ext. intros x. rewrite mem_app'. cbn [mem].
+          rewrite orb_false_r, negb_orb. reflexivity. }
+        assert (HA'id : map (rsd (done ++ [n])) (filter (fun x => negb (mem x (done ++ [n]))) ch) =
+                        filter (fun x => negb (mem x (done ++ [n]))) ch).
+        { apply map_id_in. intros x Hx. apply filter_In in Hx. destruct Hx as [Hx1 Hx2].
+          apply Hout; [exact Hx1|]. apply negb_true_iff, mem_false_iff in Hx2. exact Hx2. }
+        assert (HB' : filter (fun x => mem x ch) (done ++ [n]) = filter (fun x => mem x ch) done ++ [n]).
+        { rewrite filter_app. cbn [filter]. apply mem_In in Hnch. rewrite Hnch. reflexivity. }
+        rewrite map_app, HA, (remove_first_app_in _ _ _ HnA).
+        rewrite (remove_first_filter n _ (NoDup_filter _ (sound_children_for_NoDup guest GS k))).
+        rewrite HB', !map_app, HA'id, HA', (map_ext_in _ _ _ HB). cbn [map].
+        rewrite (rsd_in (done ++ [n]) n Hns) by (apply in_or_app; right; left; reflexivity).
+        rewrite <- app_assoc. reflexivity.
+      + assert (Ene : str_eqb (rsd done pn) (rsd done k) = false).
+        { apply seqb_neq. intros E. apply Hpk. apply (im_inj _ _ _ HI); [|apply in_S_state; exact Hk|exact E].
+          apply (sd_pc guest GS _ _ Hpn). reflexivity. }
+        rewrite Ene.
+        assert (Hnch : ~ In n ch).
+        { intros Hin. pose proof (sound_child_parent guest GS _ _ Hin) as Hp. congruence. }
+        assert (HA' : filter (fun x => negb (mem x (done ++ [n]))) ch = filter (fun x => negb (mem x done)) ch).
+        { apply filter_ext_in. intros x Hx. rewrite mem_app'. cbn [mem].
+          destruct (seqbP x n) as [->|_]; [contradiction|]. rewrite !orb_false_r. reflexivity. }
+        assert (HB' : filter (fun x => mem x ch) (done ++ [n]) = filter (fun x => mem x ch) done).
+        { rewrite filter_app. cbn [filter]. apply mem_false_iff in Hnch. rewrite Hnch. apply app_nil_r. }
+        rewrite HA', HB'. apply map_ext_in. intros x Hx. symmetry. apply rsd_app_other. intros ->.
+        apply in_app_or in Hx. destruct Hx as [Hx|Hx]; apply filter_In in Hx; destruct Hx as [Hx _]; auto.
+  Qed.
+
+  Lemma CH_final : forall g2, CH D g2 -> forall k, in_S k ->
+    children_for g2 (rs k) = map rs (children_for guest k).
+  Proof.
+    intros g2 HC k Hk. unfold rs. rewrite (HC k Hk).
+    rewrite filter_false'.
+    2:{ intros x Hx. apply negb_false_iff, mem_In. eapply subtree_child; eauto. }
+    cbn [app]. f_equal.
+    assert (Efil : filter (fun x => mem x (children_for guest k)) D = filter (child_of guest k) D).
+    { apply filter_ext_in. intros x Hx. unfold child_of.
+      destruct (mem x (children_for guest k)) eqn:Em.
+      - apply mem_In in Em. rewrite (parent_for_lookup _ _ _ (sound_child_parent guest GS _ _ Em)).
+        symmetry. apply oeqb_refl.
+      - destruct (ostr_eqb (parent_for guest x) (Some k)) eqn:Ep; [|reflexivity]. exfalso.
+        apply ostr_eqb_eq in Ep. unfold parent_for in Ep.
+        destruct (lookup x (c_parent guest)) as [pp|] eqn:Epp; [|discriminate]. subst pp.
+        apply mem_false_iff in Em. apply Em. apply sound_parent_child; assumption. }
+    rewrite Efil. apply (descendants_filter_children guest GS source k Hk).
+  Qed.
+
+  Lemma desc_g2 : forall g2, img rs guest g2 -> CH D g2 -> descendants_for g2 replace = map rs D.
+  Proof.
+    intros g2 HI2 HC. unfold descendants_for. rewrite (im_len _ _ _ HI2).
+    assert (Eq : [replace] = map rs [source]) by (simpl; rewrite rs_source; reflexivity). rewrite Eq.
+    apply (bfs_map rs guest g2 in_S).
+    - intros x Hx. apply CH_final; assumption.
+    - intros x Hx y Hy. right. eapply subtree_child; eauto.
+    - intros x [<-|[]]. left; reflexivity.
+  Qed.
+
+  Lemma guest_entries_id : forall rest g g' E r, (forall n, In n rest -> rh n = n) ->
+    guest_entries rest rho g = (g', E, r) -> g' = g.
+  Proof.
+    induction rest as [|n rest IH]; intros g g' E r Hid Hge; simpl in Hge; [inv Hge; reflexivity|].
+    fold rh in Hge. rewrite (Hid n (or_introl eq_refl)), rename_state_eq, seqb_refl in Hge. cbn [eres_eqb negb] in Hge.
+    destruct (state_for g n); [|inv Hge; reflexivity].
+    destruct (guest_entries rest rho g) as [[g'' E''] r''] eqn:Hge1. inv Hge.
+    eapply IH; [|exact Hge1]. intros m Hm. apply Hid. right; exact Hm.
+  Qed.
+
+  (* when the renaming function moves every descendant, or none (the default renaming_func), the copied
+     transitions come in the order collect_transitions gives on the guest itself *)
+  Theorem C17_copy_transitions_order :
+    (forall n, In n D -> rh n <> n) \/ (forall n, In n D -> rh n = n) ->
+    exists h', copy_from_statechart host guest source replace rho = (h', EOk) /\
+      c_transitions h' =
+      c_transitions host ++
+      map (map_trans rs) (flat_map (nth_trans (c_transitions guest))
+                                   (collect_transitions guest (source :: D) [])).
+  Proof.
+    intros Hcase.
+    destruct run_loop as [g1 [g2 [h2 [Hren [Hst [HD1 [Hcopy [HE2 [HI2 [Hext Hal]]]]]]]]]].
+    exists (hfinal g2 h2). split.
+    { unfold copy_from_statechart. rewrite Hrep. cbn [negb]. rewrite Hleaf, Hren. cbn [eres_eqb negb].
+      rewrite Hst. cbv zeta. fold h1. rewrite HD1. fold D. rewrite Hcopy. cbn [eres_eqb negb].
+      apply add_transitions_spec. intros t Ht. apply (ts2_ok g2 h2 HE2 HI2 Hext). exact Ht. }
+    assert (Hdesc : descendants_for g2 replace = map rs D).
+    { apply copy_states_decompose in Hcopy. destruct Hcopy as [E [Hge _]].
+      destruct first_rename as [g1' [Hren' [HE1 [HI1 _]]]]. rewrite Hren in Hren'. inv Hren'.
+      destruct Hcase as [Hmoved|Hid].
+      - apply desc_g2; [exact HI2|].
+        apply (guest_loop_order Hmoved D [] g1' g2 E eq_refl HE1 HI1 (CH_init g1' Hren) Hge).
+      - rewrite (guest_entries_id _ _ _ _ _ Hid Hge), HD1. symmetry. apply map_id_in.
+        intros x Hx. rewrite (rs_D _ Hx). apply Hid. exact Hx. }
+    destruct (h3_facts g2 h2 Hext) as [_ [_ [_ [_ [_ [N6 _]]]]]].
+    unfold hfinal. cbn [with_transitions c_transitions]. rewrite N6. f_equal.
+    unfold ts2, names2. rewrite Hdesc.
+    assert (Eq : replace :: map rs D = map rs (source :: D)) by (simpl; rewrite rs_source; reflexivity).
+    rewrite Eq, (collect_transitions_img rs guest g2 HI2 GS).
+    - rewrite (im_trans _ _ _ HI2). apply flat_nth_trans_map.
+    - intros n Hn. apply in_S_state. destruct Hn as [<-|Hn]; [left; reflexivity|right; exact Hn].
+  Qed.
+End Main.
+
+(* ================================================================== 8. non-vacuity *)
+Lemma ex_in_S_mem : forall x,
+  (x = "r" \/ In x (descendants_for ex_guest "r")) <-> mem x ("r" :: descendants_for ex_guest "r") = true.
+Proof.
+  intros x. rewrite mem_In. simpl. split; intros [H|H]; auto.
+Qed.
+
+Lemma ex_hyps :
+  einv ex_host /\ einv ex_guest /\ has_state ex_host "plug" = true /\ children_for ex_host "plug" = [] /\
+  has_state ex_guest "r" = true /\ ("r" = "plug" \/ has_state ex_guest "plug" = false) /\
+  (forall n, In n (descendants_for ex_guest "r") -> has_state ex_host (rho_apply ex_rho n) = false) /\
+  (forall n, In n (descendants_for ex_guest "r") -> rho_apply ex_rho n <> "") /\
+  NoDup (map (rho_apply ex_rho) (descendants_for ex_guest "r")) /\
+  (forall n, In n (descendants_for ex_guest "r") ->
+     rho_apply ex_rho n = n \/ has_state ex_guest (rho_apply ex_rho n) = false) /\
+  (forall n p sp sn, In n (descendants_for ex_guest "r") -> lookup n (c_parent ex_guest) = Some (Some p) ->
+     lookup p (c_states ex_guest) = Some sp -> lookup n (c_states ex_guest) = Some sn ->
+     is_composite (s_kind sp) = true /\ (is_history (s_kind sn) = true -> s_kind sp = KCompound)) /\
+  (forall t, In t (c_transitions ex_guest) -> forall tg, t_target t = Some tg ->
+     (t_source t = "r" \/ In (t_source t) (descendants_for ex_guest "r")) <->
+     (tg = "r" \/ In tg (descendants_for ex_guest "r"))) /\
+  s_memory (state_of ex_guest "r") = None /\
+  (forall t, In t (c_transitions ex_host) -> t_source t = "plug" ->
+     owns_transitions (s_kind (state_of ex_guest "r")) = true).
+Proof.
+  assert (E : forall c, sound_b c = true -> has_state c "" = false -> fields_ok_b c = true -> einv c).
+  { intros c H1 H2 H3. split; [apply sound_b_sound; assumption|]. split; [exact H2|apply fields_ok_b_sound; exact H3]. }
+  split; [apply E; vm_compute; reflexivity|]. split; [apply E; vm_compute; reflexivity|].
+  split; [reflexivity|]. split; [reflexivity|]. split; [reflexivity|]. split; [right; reflexivity|].
+  split. { intros n Hn. vm_compute in Hn. repeat (destruct Hn as [<-|Hn]; [reflexivity|]). destruct Hn. }
+  split. { intros n Hn. vm_compute in Hn. repeat (destruct Hn as [<-|Hn]; [vm_compute; discriminate|]). destruct Hn. }
+  split. { apply nodup_names_iff. vm_compute. reflexivity. }
+  split. { intros n Hn. vm_compute in Hn. repeat (destruct Hn as [<-|Hn]; [right; reflexivity|]). destruct Hn. }
+  split.
+  { intros n p sp sn Hn Hp Hsp Hsn. vm_compute in Hn.
+    repeat (destruct Hn as [<-|Hn];
+            [vm_compute in Hp; inv Hp; vm_compute in Hsp; inv Hsp; vm_compute in Hsn; inv Hsn;
+             split; [reflexivity|intros _; reflexivity]|]).
+    destruct Hn. }
+  split.
+  { intros t Ht tg Etg. rewrite !ex_in_S_mem. vm_compute in Ht.
+    repeat (destruct Ht as [<-|Ht]; [vm_compute in Etg; try discriminate; inv Etg; vm_compute; tauto|]).
+    destruct Ht. }
+  split; [reflexivity|]. intros t _ _. reflexivity.
+Qed.
+
+(* the hypotheses of C17_copy_structure / C17_copy_sound hold of a host with two transitions at the replaced state
+   and a guest subtree of five states (compound, basic, shallow history) with five of the six guest transitions
+   inside it (one of them internal), the sixth outside; the result is the chart computed by the model *)
+Example C17_copy_structure_instance :
+  exists h', copy_from_statechart ex_host ex_guest "r" "plug" ex_rho = (h', EOk) /\ einv h' /\
+             map fst (c_states h') = ["hroot"; "plug"; "other"; "p_a"; "p_b"; "p_b1"; "p_bh"] /\
+             length (c_transitions h') = 7.
+Proof.
+  destruct ex_hyps as [H1 [H2 [H3 [H4 [H5 [H6 [H7 [H8 [H9 [H10 [H11 [H12 [H13 H14]]]]]]]]]]]]].
+  destruct (C17_copy_sound ex_host ex_guest "r" "plug" ex_rho H1 H2 H3 H4 H5 H6 H7 H8 H9 H10 H11 H12 H13 H14)
+    as [h' [Hrun Hinv]].
+  exists h'. split; [exact Hrun|]. split; [exact Hinv|].
+  assert (E : h' = fst ex_result) by (change (fst ex_result) with (fst (copy_from_statechart ex_host ex_guest "r" "plug" ex_rho)); rewrite Hrun; reflexivity).
+  rewrite E. split; reflexivity.
+Qed.
+
+(* ================================================================== 9. the boolean the correspondence check evaluates *)
+(* bit 4 of check_ccase is exactly "host and guest sound, outcome EOk  ->  the resulting host is sound" *)
+Theorem check_ccase_bit4 : forall c,
+  no_empty_name (cc_host c) -> no_empty_name (cc_guest c) -> no_empty_name (cc_post c) ->
+  (N.testbit (check_ccase c) 2 = false <->
+   (sound (cc_host c) -> sound (cc_guest c) -> cc_res c = EOk -> sound (cc_post c))).
+Proof.
+  intros c N1 N2 N3. unfold check_ccase.
+  destruct (copy_from_statechart (cc_host c) (cc_guest c) (cc_source c) (cc_replace c) (cc_rho c)) as [m r].
+  rewrite <- (sound_b_iff _ N1), <- (sound_b_iff _ N2), <- (sound_b_iff _ N3).
+  assert (Er : eres_eqb (cc_res c) EOk = true <-> cc_res c = EOk) by (destruct (cc_res c); simpl; split; congruence).
+  destruct (eres_eqb r (cc_res c)), (chart_eqb m (cc_post c)), (sound_b (cc_host c)), (sound_b (cc_guest c)),
+    (eres_eqb (cc_res c) EOk) eqn:E3, (sound_b (cc_post c)); cbn;
+    (split; [intros H; try discriminate H; intros; try reflexivity; try discriminate; try (apply Er; assumption)
+            |intros H; try reflexivity]);
+    try (assert (X : false = true) by (apply H; try reflexivity; apply Er; reflexivity); discriminate X);
+    try (exfalso; assert (X : false = true) by (apply Er; assumption); discriminate X).
+Qed.
+
+(* the theorem behind bit 4: under the hypotheses of C17_copy_sound the boolean is true *)
+Corollary C17_copy_sound_b : forall host guest source replace rho,
+  einv host -> einv guest -> has_state host replace = true -> children_for host replace = [] ->
+  has_state guest source = true -> source = replace \/ has_state guest replace = false ->
+  (forall n, In n (descendants_for guest source) -> has_state host (rho_apply rho n) = false) ->
+  (forall n, In n (descendants_for guest source) -> rho_apply rho n <> "") ->
+  NoDup (map (rho_apply rho) (descendants_for guest source)) ->
+  (forall n, In n (descendants_for guest source) ->
+     rho_apply rho n = n \/ has_state guest (rho_apply rho n) = false) ->
+  (forall n p sp sn, In n (descendants_for guest source) -> lookup n (c_parent guest) = Some (Some p) ->
+     lookup p (c_states guest) = Some sp -> lookup n (c_states guest) = Some sn ->
+     is_composite (s_kind sp) = true /\ (is_history (s_kind sn) = true -> s_kind sp = KCompound)) ->
+  (forall t, In t (c_transitions guest) -> forall tg, t_target t = Some tg ->
+     (t_source t = source \/ In (t_source t) (descendants_for guest source)) <->
+     (tg = source \/ In tg (descendants_for guest source))) ->
+  s_memory (state_of guest source) = None ->
+  (forall t, In t (c_transitions host) -> t_source t = replace ->
+     owns_transitions (s_kind (state_of guest source)) = true) ->
+  sound_b (fst (copy_from_statechart host guest source replace rho)) = true /\
+  snd (copy_from_statechart host guest source replace rho) = EOk.
+Proof.
+  intros host guest source replace rho H1 H2 H3 H4 H5 H6 H7 H8 H9 H10 H11 H12 H13 H14.
+  destruct (C17_copy_sound host guest source replace rho H1 H2 H3 H4 H5 H6 H7 H8 H9 H10 H11 H12 H13 H14)
+    as [h' [Hrun [HS _]]].
+  rewrite Hrun. split; [apply sound_sound_b; exact HS|reflexivity].
+Qed.
+
+(* ================================================================== 10. what does NOT hold *)
+Lemma einv_b : forall c, sound_b c = true -> has_state c "" = false -> fields_ok_b c = true -> einv c.
+Proof.
+  intros c H1 H2 H3. split; [apply sound_b_sound; assumption|]. split; [exact H2|apply fields_ok_b_sound; exact H3].
+Qed.
+
+Definition g_final : chart :=
+  mkChart "g" None None
+    [("g", stx "g" KCompound None None); ("f", stx "f" KFinal None None)]
+    [("g", None); ("f", Some "g")]
+    [(None, ["g"]); (Some "g", ["f"]); (Some "f", [])] [].
+
+Definition g_hist : chart :=
+  mkChart "g" None None
+    [("g", stx "g" KCompound None None); ("x", stx "x" KBasic None None); ("hh", stx "hh" KShallow None (Some "x"))]
+    [("g", None); ("x", Some "g"); ("hh", Some "g")]
+    [(None, ["g"]); (Some "g", ["x"; "hh"]); (Some "x", []); (Some "hh", [])] [].
+
+Definition host2 : chart :=
+  mkChart "host" None None
+    [("hroot", stx "hroot" KCompound (Some "plug") None); ("plug", stx "plug" KBasic None None)]
+    [("hroot", None); ("plug", Some "hroot")]
+    [(None, ["hroot"]); (Some "hroot", ["plug"]); (Some "plug", [])] [].
+
+Definition g_mixed : chart :=
+  mkChart "g" None None
+    [("r", stx "r" KCompound None None); ("a", stx "a" KBasic None None); ("b", stx "b" KBasic None None)]
+    [("r", None); ("a", Some "r"); ("b", Some "r")]
+    [(None, ["r"]); (Some "r", ["a"; "b"]); (Some "a", []); (Some "b", [])]
+    [trx "b" (Some "b") "x"; trx "a" (Some "a") "y"].
+
+(* "the call returns EOk on a sound host and a sound guest => the result is sound" is FALSE (the two extra hypotheses of
+   C17_copy_sound are needed).  (1) a final state replaces a state that has an outgoing transition: the host then owns
+   a transition leaving a FinalState (add_transition itself would refuse it).  /repo behaves the same way. *)
+Theorem C17_copy_sound_unconditional_refuted :
+  exists host guest source replace rho h',
+    einv host /\ einv guest /\ copy_from_statechart host guest source replace rho = (h', EOk) /\ ~ sound h'.
+Proof.
+  exists ex_host, g_final, "f", "plug", [], (fst (copy_from_statechart ex_host g_final "f" "plug" [])).
+  split; [apply einv_b; vm_compute; reflexivity|]. split; [apply einv_b; vm_compute; reflexivity|].
+  split; [vm_compute; reflexivity|]. intros HS. apply sound_sound_b in HS. vm_compute in HS. discriminate.
+Qed.
+
+(* (2) the source is a history state whose memory names a sibling: the sibling is not copied, the host's validate()
+   fails afterwards.  /repo behaves the same way. *)
+Theorem C17_copy_sound_history_memory_refuted :
+  exists host guest source replace rho h',
+    einv host /\ einv guest /\ copy_from_statechart host guest source replace rho = (h', EOk) /\
+    ~ sound h' /\ validate h' = false.
+Proof.
+  exists host2, g_hist, "hh", "plug", [], (fst (copy_from_statechart host2 g_hist "hh" "plug" [])).
+  split; [apply einv_b; vm_compute; reflexivity|]. split; [apply einv_b; vm_compute; reflexivity|].
+  split; [vm_compute; reflexivity|]. split; [|vm_compute; reflexivity].
+  intros HS. apply sound_sound_b in HS. vm_compute in HS. discriminate.
+Qed.
+
+(* (3) the ORDER of the copied transitions is the one collect_transitions finds in the guest COPY at the end of the
+   call, and that is not always the image of the guest's own breadth-first order: rename_state moves a renamed child
+   to the end of its parent's list and leaves a child with renaming_func(name) = name where it is.  With a renaming
+   that moves some children of a state and fixes others the copied transitions come in another order than
+   collect_transitions gives on the guest itself (here [b->b; a2->a2] instead of [a2->a2; b->b]).  The host's own
+   children lists are NOT affected (clause (b) of C17_copy_structure).  /repo behaves the same way. *)
+Theorem C17_copy_transitions_guest_order_refuted :
+  exists host guest source replace rho h',
+    einv host /\ einv guest /\ copy_from_statechart host guest source replace rho = (h', EOk) /\ einv h' /\
+    c_transitions h' <>
+    c_transitions host ++
+    map (map_trans (rs guest source replace rho))
+        (flat_map (nth_trans (c_transitions guest))
+                  (collect_transitions guest (source :: descendants_for guest source) [])).
+Proof.
+  exists host2, g_mixed, "r", "plug", [("a", "a2")], (fst (copy_from_statechart host2 g_mixed "r" "plug" [("a", "a2")])).
+  split; [apply einv_b; vm_compute; reflexivity|]. split; [apply einv_b; vm_compute; reflexivity|].
+  split; [vm_compute; reflexivity|]. split; [apply einv_b; vm_compute; reflexivity|].
+  intros E. vm_compute in E. discriminate.
+Qed.
+
+(* ================================================================== 11. small instances of the other theorems *)
+Example copy_refused_instance :
+  copy_from_statechart ex_host ex_guest "r" "nowhere" ex_rho = (ex_host, EStatechartError) /\
+  copy_from_statechart ex_host ex_guest "r" "hroot" ex_rho = (ex_host, EStatechartError) /\
+  copy_from_statechart ex_host ex_guest "nosuch" "plug" ex_rho = (ex_host, EStatechartError).
+Proof. repeat split; vm_compute; reflexivity. Qed.
+
+Example copy_transitions_once_instance :
+  collect_transitions ex_guest ("r" :: descendants_for ex_guest "r") [] = [3; 0; 4; 2; 5].
+Proof. vm_compute. reflexivity. Qed.
+
+Definition ex_g1 : chart := Eval vm_compute in fst (rename_state ex_guest "r" "plug").
+Definition ex_h1 : chart :=
+  with_states ex_host (dset "plug" (stx "plug" KCompound (Some "p_a") None) (c_states ex_host)).
+
+(* hypotheses and conclusion of copy_states_spec on the loop of the running example *)
+Example copy_states_instance :
+  aligned ex_h1 /\
+  exists g' h', copy_states (descendants_for ex_g1 "plug") ex_rho ex_g1 ex_h1 [] =
+                (g', h', ["p_a"; "p_b"; "p_b1"; "p_bh"], EOk).
+Proof.
+  split.
+  - assert (H : aligned ex_host) by (apply sound_aligned, sound_b_sound; vm_compute; reflexivity).
+    destruct H as [A1 A2]. split; intros n.
+    + intros H. apply A1 in H. revert H. unfold has_state, ex_h1. cbn [with_states c_states]. rewrite lookup_dset.
+      destruct (str_eqb n "plug"); auto.
+    + rewrite (A2 n). unfold has_state, ex_h1. cbn [with_states c_states]. rewrite lookup_dset.
+      destruct (seqbP n "plug") as [->|]; [split; reflexivity|reflexivity].
+  - eexists. eexists. vm_compute. reflexivity.
+Qed.
+
+Example C17_copy_transitions_order_instance :
+  (forall n, In n (descendants_for ex_guest "r") -> rho_apply ex_rho n <> n) /\
+  c_transitions (fst ex_result) =
+  c_transitions ex_host ++
+  map (map_trans (rs ex_guest "r" "plug" ex_rho))
+      (flat_map (nth_trans (c_transitions ex_guest))
+                (collect_transitions ex_guest ("r" :: descendants_for ex_guest "r") [])).
+Proof.
+  split.
+  - intros n Hn. vm_compute in Hn. repeat (destruct Hn as [<-|Hn]; [vm_compute; discriminate|]). destruct Hn.
+  - vm_compute. reflexivity.
+Qed.
+
+(* ================================================================== assumptions *)
+Print Assumptions copy_refused_unchanged.
+Print Assumptions copy_transitions_once.
+Print Assumptions copy_states_decompose.
+Print Assumptions copy_states_spec.
+Print Assumptions copy_states_ok.
+Print Assumptions descendants_filter_children.
+Print Assumptions C17_copy_structure.
+Print Assumptions C17_copy_sound.
+Print Assumptions C17_copy_transitions_order.
+Print Assumptions check_ccase_bit4.
+Print Assumptions C17_copy_sound_b.
+Print Assumptions C17_copy_structure_instance.
+Print Assumptions C17_copy_sound_unconditional_refuted.
+Print Assumptions C17_copy_sound_history_memory_refuted.
+Print Assumptions C17_copy_transitions_guest_order_refuted.
